@@ -1214,7 +1214,7 @@ const InstDB::InstInfo InstDB::_inst_info_table[] = {
   INST(Vmovupd          , VexRmMr_Lx         , V(660F00,10,_,x,I,1,4,FVM), V(660F00,11,_,x,I,1,4,FVM), 102, 105, 328, 167), // #1165
   INST(Vmovups          , VexRmMr_Lx         , V(000F00,10,_,x,I,0,4,FVM), V(000F00,11,_,x,I,0,4,FVM), 104, 106, 328, 167), // #1166
   INST(Vmovw            , VexMovdMovq        , E(66MAP5,6E,_,0,_,I,1,T1S), E(66MAP5,7E,_,0,_,I,1,T1S), 196, 107, 343, 145), // #1167
-  INST(Vmpsadbw         , VexRvmi_Lx         , V(660F3A,42,_,x,I,_,_,_  ), 0                         , 75 , 0  , 218, 171), // #1168
+  INST(Vmpsadbw         , VexRvmi_Lx_EvexAlt , V(660F3A,42,_,x,I,_,_,_  ), E(F30F3A,42,_,x,_,0,4,FVM), 75 , 108, 314, 171), // #1168
   INST(Vmptrld          , X86M_Only          , O(000F00,C7,6,_,_,_,_,_  ), 0                         , 82 , 0  , 33 , 67 ), // #1169
   INST(Vmptrst          , X86M_Only          , O(000F00,C7,7,_,_,_,_,_  ), 0                         , 24 , 0  , 33 , 67 ), // #1170
   INST(Vmread           , X86Mr_NoSize       , O(000F00,78,_,_,_,_,_,_  ), 0                         , 5  , 0  , 344, 67 ), // #1171
@@ -1251,9 +1251,9 @@ const InstDB::InstInfo InstDB::_inst_info_table[] = {
   INST(Vpaddusw         , VexRvm_Lx          , V(660F00,DD,_,x,I,I,4,FVM), 0                         , 143, 0  , 315, 173), // #1202
   INST(Vpaddw           , VexRvm_Lx          , V(660F00,FD,_,x,I,I,4,FVM), 0                         , 143, 0  , 315, 173), // #1203
   INST(Vpalignr         , VexRvmi_Lx         , V(660F3A,0F,_,x,I,I,4,FVM), 0                         , 198, 0  , 314, 173), // #1204
-  INST(Vpand            , VexRvm_Lx          , V(660F00,DB,_,x,I,_,_,_  ), 0                         , 71 , 0  , 350, 171), // #1205
+  INST(Vpand            , VexRvm_Lx          , V(660F00,DB,_,x,I,_,_,_  ), 0                         , 71 , 0  , 350, 174), // #1205
   INST(Vpandd           , VexRvm_Lx          , E(660F00,DB,_,x,_,0,4,FV ), 0                         , 192, 0  , 351, 149), // #1206
-  INST(Vpandn           , VexRvm_Lx          , V(660F00,DF,_,x,I,_,_,_  ), 0                         , 71 , 0  , 352, 171), // #1207
+  INST(Vpandn           , VexRvm_Lx          , V(660F00,DF,_,x,I,_,_,_  ), 0                         , 71 , 0  , 352, 174), // #1207
   INST(Vpandnd          , VexRvm_Lx          , E(660F00,DF,_,x,_,0,4,FV ), 0                         , 192, 0  , 353, 149), // #1208
   INST(Vpandnq          , VexRvm_Lx          , E(660F00,DF,_,x,_,1,4,FV ), 0                         , 134, 0  , 354, 149), // #1209
   INST(Vpandq           , VexRvm_Lx          , E(660F00,DB,_,x,_,1,4,FV ), 0                         , 134, 0  , 355, 149), // #1210
@@ -1264,15 +1264,15 @@ const InstDB::InstInfo InstDB::_inst_info_table[] = {
   INST(Vpblendmd        , VexRvm_Lx          , E(660F38,64,_,x,_,0,4,FV ), 0                         , 113, 0  , 217, 149), // #1215
   INST(Vpblendmq        , VexRvm_Lx          , E(660F38,64,_,x,_,1,4,FV ), 0                         , 112, 0  , 216, 149), // #1216
   INST(Vpblendmw        , VexRvm_Lx          , E(660F38,66,_,x,_,1,4,FVM), 0                         , 112, 0  , 356, 160), // #1217
-  INST(Vpblendvb        , VexRvmr_Lx         , V(660F3A,4C,_,x,0,_,_,_  ), 0                         , 75 , 0  , 219, 171), // #1218
-  INST(Vpblendw         , VexRvmi_Lx         , V(660F3A,0E,_,x,I,_,_,_  ), 0                         , 75 , 0  , 218, 171), // #1219
-  INST(Vpbroadcastb     , VexRm_Lx_Bcst      , V(660F38,78,_,x,0,0,0,T1S), E(660F38,7A,_,x,0,0,0,T1S), 30 , 108, 357, 174), // #1220
-  INST(Vpbroadcastd     , VexRm_Lx_Bcst      , V(660F38,58,_,x,0,0,2,T1S), E(660F38,7C,_,x,0,0,0,T1S), 121, 109, 358, 164), // #1221
-  INST(Vpbroadcastmb2q  , VexRm_Lx           , E(F30F38,2A,_,x,_,1,_,_  ), 0                         , 199, 0  , 359, 175), // #1222
-  INST(Vpbroadcastmw2d  , VexRm_Lx           , E(F30F38,3A,_,x,_,0,_,_  ), 0                         , 200, 0  , 359, 175), // #1223
-  INST(Vpbroadcastq     , VexRm_Lx_Bcst      , V(660F38,59,_,x,0,1,3,T1S), E(660F38,7C,_,x,0,1,0,T1S), 120, 110, 360, 164), // #1224
-  INST(Vpbroadcastw     , VexRm_Lx_Bcst      , V(660F38,79,_,x,0,0,1,T1S), E(660F38,7B,_,x,0,0,0,T1S), 201, 111, 361, 174), // #1225
-  INST(Vpclmulqdq       , VexRvmi_Lx         , V(660F3A,44,_,x,I,_,4,FVM), 0                         , 198, 0  , 362, 176), // #1226
+  INST(Vpblendvb        , VexRvmr_Lx         , V(660F3A,4C,_,x,0,_,_,_  ), 0                         , 75 , 0  , 219, 174), // #1218
+  INST(Vpblendw         , VexRvmi_Lx         , V(660F3A,0E,_,x,I,_,_,_  ), 0                         , 75 , 0  , 218, 174), // #1219
+  INST(Vpbroadcastb     , VexRm_Lx_Bcst      , V(660F38,78,_,x,0,0,0,T1S), E(660F38,7A,_,x,0,0,0,T1S), 30 , 109, 357, 175), // #1220
+  INST(Vpbroadcastd     , VexRm_Lx_Bcst      , V(660F38,58,_,x,0,0,2,T1S), E(660F38,7C,_,x,0,0,0,T1S), 121, 110, 358, 164), // #1221
+  INST(Vpbroadcastmb2q  , VexRm_Lx           , E(F30F38,2A,_,x,_,1,_,_  ), 0                         , 199, 0  , 359, 176), // #1222
+  INST(Vpbroadcastmw2d  , VexRm_Lx           , E(F30F38,3A,_,x,_,0,_,_  ), 0                         , 200, 0  , 359, 176), // #1223
+  INST(Vpbroadcastq     , VexRm_Lx_Bcst      , V(660F38,59,_,x,0,1,3,T1S), E(660F38,7C,_,x,0,1,0,T1S), 120, 111, 360, 164), // #1224
+  INST(Vpbroadcastw     , VexRm_Lx_Bcst      , V(660F38,79,_,x,0,0,1,T1S), E(660F38,7B,_,x,0,0,0,T1S), 201, 112, 361, 175), // #1225
+  INST(Vpclmulqdq       , VexRvmi_Lx         , V(660F3A,44,_,x,I,_,4,FVM), 0                         , 198, 0  , 362, 177), // #1226
   INST(Vpcmov           , VexRvrmRvmr_Lx     , V(XOP_M8,A2,_,x,x,_,_,_  ), 0                         , 202, 0  , 363, 163), // #1227
   INST(Vpcmpb           , VexRvmi_Lx         , E(660F3A,3F,_,x,_,0,4,FVM), 0                         , 110, 0  , 364, 160), // #1228
   INST(Vpcmpd           , VexRvmi_Lx         , E(660F3A,1F,_,x,_,0,4,FV ), 0                         , 110, 0  , 365, 149), // #1229
@@ -1280,14 +1280,14 @@ const InstDB::InstInfo InstDB::_inst_info_table[] = {
   INST(Vpcmpeqd         , VexRvm_Lx_KEvex    , V(660F00,76,_,x,I,0,4,FVM), 0                         , 143, 0  , 367, 154), // #1231
   INST(Vpcmpeqq         , VexRvm_Lx_KEvex    , V(660F38,29,_,x,I,1,4,FVM), 0                         , 203, 0  , 368, 154), // #1232
   INST(Vpcmpeqw         , VexRvm_Lx_KEvex    , V(660F00,75,_,x,I,I,4,FV ), 0                         , 143, 0  , 366, 173), // #1233
-  INST(Vpcmpestri       , VexRmi             , V(660F3A,61,_,0,I,_,_,_  ), 0                         , 75 , 0  , 369, 177), // #1234
-  INST(Vpcmpestrm       , VexRmi             , V(660F3A,60,_,0,I,_,_,_  ), 0                         , 75 , 0  , 370, 177), // #1235
+  INST(Vpcmpestri       , VexRmi             , V(660F3A,61,_,0,I,_,_,_  ), 0                         , 75 , 0  , 369, 178), // #1234
+  INST(Vpcmpestrm       , VexRmi             , V(660F3A,60,_,0,I,_,_,_  ), 0                         , 75 , 0  , 370, 178), // #1235
   INST(Vpcmpgtb         , VexRvm_Lx_KEvex    , V(660F00,64,_,x,I,I,4,FV ), 0                         , 143, 0  , 366, 173), // #1236
   INST(Vpcmpgtd         , VexRvm_Lx_KEvex    , V(660F00,66,_,x,I,0,4,FVM), 0                         , 143, 0  , 367, 154), // #1237
   INST(Vpcmpgtq         , VexRvm_Lx_KEvex    , V(660F38,37,_,x,I,1,4,FVM), 0                         , 203, 0  , 368, 154), // #1238
   INST(Vpcmpgtw         , VexRvm_Lx_KEvex    , V(660F00,65,_,x,I,I,4,FV ), 0                         , 143, 0  , 366, 173), // #1239
-  INST(Vpcmpistri       , VexRmi             , V(660F3A,63,_,0,I,_,_,_  ), 0                         , 75 , 0  , 371, 177), // #1240
-  INST(Vpcmpistrm       , VexRmi             , V(660F3A,62,_,0,I,_,_,_  ), 0                         , 75 , 0  , 372, 177), // #1241
+  INST(Vpcmpistri       , VexRmi             , V(660F3A,63,_,0,I,_,_,_  ), 0                         , 75 , 0  , 371, 178), // #1240
+  INST(Vpcmpistrm       , VexRmi             , V(660F3A,62,_,0,I,_,_,_  ), 0                         , 75 , 0  , 372, 178), // #1241
   INST(Vpcmpq           , VexRvmi_Lx         , E(660F3A,1F,_,x,_,1,4,FV ), 0                         , 111, 0  , 373, 149), // #1242
   INST(Vpcmpub          , VexRvmi_Lx         , E(660F3A,3E,_,x,_,0,4,FVM), 0                         , 110, 0  , 364, 160), // #1243
   INST(Vpcmpud          , VexRvmi_Lx         , E(660F3A,1E,_,x,_,0,4,FV ), 0                         , 110, 0  , 365, 149), // #1244
@@ -1296,39 +1296,39 @@ const InstDB::InstInfo InstDB::_inst_info_table[] = {
   INST(Vpcmpw           , VexRvmi_Lx         , E(660F3A,3F,_,x,_,1,4,FVM), 0                         , 111, 0  , 364, 160), // #1247
   INST(Vpcomb           , VexRvmi            , V(XOP_M8,CC,_,0,0,_,_,_  ), 0                         , 202, 0  , 281, 163), // #1248
   INST(Vpcomd           , VexRvmi            , V(XOP_M8,CE,_,0,0,_,_,_  ), 0                         , 202, 0  , 281, 163), // #1249
-  INST(Vpcompressb      , VexMr_Lx           , E(660F38,63,_,x,_,0,0,T1S), 0                         , 204, 0  , 236, 178), // #1250
+  INST(Vpcompressb      , VexMr_Lx           , E(660F38,63,_,x,_,0,0,T1S), 0                         , 204, 0  , 236, 179), // #1250
   INST(Vpcompressd      , VexMr_Lx           , E(660F38,8B,_,x,_,0,2,T1S), 0                         , 128, 0  , 236, 149), // #1251
   INST(Vpcompressq      , VexMr_Lx           , E(660F38,8B,_,x,_,1,3,T1S), 0                         , 127, 0  , 236, 149), // #1252
-  INST(Vpcompressw      , VexMr_Lx           , E(660F38,63,_,x,_,1,1,T1S), 0                         , 205, 0  , 236, 178), // #1253
+  INST(Vpcompressw      , VexMr_Lx           , E(660F38,63,_,x,_,1,1,T1S), 0                         , 205, 0  , 236, 179), // #1253
   INST(Vpcomq           , VexRvmi            , V(XOP_M8,CF,_,0,0,_,_,_  ), 0                         , 202, 0  , 281, 163), // #1254
   INST(Vpcomub          , VexRvmi            , V(XOP_M8,EC,_,0,0,_,_,_  ), 0                         , 202, 0  , 281, 163), // #1255
   INST(Vpcomud          , VexRvmi            , V(XOP_M8,EE,_,0,0,_,_,_  ), 0                         , 202, 0  , 281, 163), // #1256
   INST(Vpcomuq          , VexRvmi            , V(XOP_M8,EF,_,0,0,_,_,_  ), 0                         , 202, 0  , 281, 163), // #1257
   INST(Vpcomuw          , VexRvmi            , V(XOP_M8,ED,_,0,0,_,_,_  ), 0                         , 202, 0  , 281, 163), // #1258
   INST(Vpcomw           , VexRvmi            , V(XOP_M8,CD,_,0,0,_,_,_  ), 0                         , 202, 0  , 281, 163), // #1259
-  INST(Vpconflictd      , VexRm_Lx           , E(660F38,C4,_,x,_,0,4,FV ), 0                         , 113, 0  , 374, 175), // #1260
-  INST(Vpconflictq      , VexRm_Lx           , E(660F38,C4,_,x,_,1,4,FV ), 0                         , 112, 0  , 374, 175), // #1261
-  INST(Vpdpbssd         , VexRvm_Lx          , V(F20F38,50,_,x,0,_,_,_  ), 0                         , 85 , 0  , 205, 179), // #1262
-  INST(Vpdpbssds        , VexRvm_Lx          , V(F20F38,51,_,x,0,_,_,_  ), 0                         , 85 , 0  , 205, 179), // #1263
-  INST(Vpdpbsud         , VexRvm_Lx          , V(F30F38,50,_,x,0,_,_,_  ), 0                         , 89 , 0  , 205, 179), // #1264
-  INST(Vpdpbsuds        , VexRvm_Lx          , V(F30F38,51,_,x,0,_,_,_  ), 0                         , 89 , 0  , 205, 179), // #1265
-  INST(Vpdpbusd         , VexRvm_Lx          , V(660F38,50,_,x,_,0,4,FV ), 0                         , 109, 0  , 375, 180), // #1266
-  INST(Vpdpbusds        , VexRvm_Lx          , V(660F38,51,_,x,_,0,4,FV ), 0                         , 109, 0  , 375, 180), // #1267
-  INST(Vpdpbuud         , VexRvm_Lx          , V(000F38,50,_,x,0,_,_,_  ), 0                         , 11 , 0  , 205, 179), // #1268
-  INST(Vpdpbuuds        , VexRvm_Lx          , V(000F38,51,_,x,0,_,_,_  ), 0                         , 11 , 0  , 205, 179), // #1269
-  INST(Vpdpwssd         , VexRvm_Lx          , V(660F38,52,_,x,_,0,4,FV ), 0                         , 109, 0  , 375, 180), // #1270
-  INST(Vpdpwssds        , VexRvm_Lx          , V(660F38,53,_,x,_,0,4,FV ), 0                         , 109, 0  , 375, 180), // #1271
-  INST(Vpdpwsud         , VexRvm_Lx          , V(F30F38,D2,_,x,0,_,_,_  ), 0                         , 89 , 0  , 205, 181), // #1272
-  INST(Vpdpwsuds        , VexRvm_Lx          , V(F30F38,D3,_,x,0,_,_,_  ), 0                         , 89 , 0  , 205, 181), // #1273
-  INST(Vpdpwusd         , VexRvm_Lx          , V(660F38,D2,_,x,0,_,_,_  ), 0                         , 30 , 0  , 205, 181), // #1274
-  INST(Vpdpwusds        , VexRvm_Lx          , V(660F38,D3,_,x,0,_,_,_  ), 0                         , 30 , 0  , 205, 181), // #1275
-  INST(Vpdpwuud         , VexRvm_Lx          , V(000F38,D2,_,x,0,_,_,_  ), 0                         , 11 , 0  , 205, 181), // #1276
-  INST(Vpdpwuuds        , VexRvm_Lx          , V(000F38,D3,_,x,0,_,_,_  ), 0                         , 11 , 0  , 205, 181), // #1277
+  INST(Vpconflictd      , VexRm_Lx           , E(660F38,C4,_,x,_,0,4,FV ), 0                         , 113, 0  , 374, 176), // #1260
+  INST(Vpconflictq      , VexRm_Lx           , E(660F38,C4,_,x,_,1,4,FV ), 0                         , 112, 0  , 374, 176), // #1261
+  INST(Vpdpbssd         , VexRvm_Lx          , V(F20F38,50,_,x,0,0,4,FV ), 0                         , 206, 0  , 212, 180), // #1262
+  INST(Vpdpbssds        , VexRvm_Lx          , V(F20F38,51,_,x,0,0,4,FV ), 0                         , 206, 0  , 212, 180), // #1263
+  INST(Vpdpbsud         , VexRvm_Lx          , V(F30F38,50,_,x,0,0,4,FV ), 0                         , 131, 0  , 212, 180), // #1264
+  INST(Vpdpbsuds        , VexRvm_Lx          , V(F30F38,51,_,x,0,0,4,FV ), 0                         , 131, 0  , 212, 180), // #1265
+  INST(Vpdpbusd         , VexRvm_Lx          , V(660F38,50,_,x,_,0,4,FV ), 0                         , 109, 0  , 375, 181), // #1266
+  INST(Vpdpbusds        , VexRvm_Lx          , V(660F38,51,_,x,_,0,4,FV ), 0                         , 109, 0  , 375, 181), // #1267
+  INST(Vpdpbuud         , VexRvm_Lx          , V(000F38,50,_,x,0,0,4,FV ), 0                         , 207, 0  , 212, 180), // #1268
+  INST(Vpdpbuuds        , VexRvm_Lx          , V(000F38,51,_,x,0,0,4,FV ), 0                         , 207, 0  , 212, 180), // #1269
+  INST(Vpdpwssd         , VexRvm_Lx          , V(660F38,52,_,x,_,0,4,FV ), 0                         , 109, 0  , 375, 181), // #1270
+  INST(Vpdpwssds        , VexRvm_Lx          , V(660F38,53,_,x,_,0,4,FV ), 0                         , 109, 0  , 375, 181), // #1271
+  INST(Vpdpwsud         , VexRvm_Lx          , V(F30F38,D2,_,x,0,0,4,FV ), 0                         , 131, 0  , 212, 182), // #1272
+  INST(Vpdpwsuds        , VexRvm_Lx          , V(F30F38,D3,_,x,0,0,4,FV ), 0                         , 131, 0  , 212, 182), // #1273
+  INST(Vpdpwusd         , VexRvm_Lx          , V(660F38,D2,_,x,0,0,4,FV ), 0                         , 109, 0  , 212, 182), // #1274
+  INST(Vpdpwusds        , VexRvm_Lx          , V(660F38,D3,_,x,0,0,4,FV ), 0                         , 109, 0  , 212, 182), // #1275
+  INST(Vpdpwuud         , VexRvm_Lx          , V(000F38,D2,_,x,0,0,4,FV ), 0                         , 207, 0  , 212, 182), // #1276
+  INST(Vpdpwuuds        , VexRvm_Lx          , V(000F38,D3,_,x,0,0,4,FV ), 0                         , 207, 0  , 212, 182), // #1277
   INST(Vperm2f128       , VexRvmi            , V(660F3A,06,_,1,0,_,_,_  ), 0                         , 170, 0  , 376, 146), // #1278
   INST(Vperm2i128       , VexRvmi            , V(660F3A,46,_,1,0,_,_,_  ), 0                         , 170, 0  , 376, 153), // #1279
-  INST(Vpermb           , VexRvm_Lx          , E(660F38,8D,_,x,_,0,4,FVM), 0                         , 113, 0  , 356, 182), // #1280
+  INST(Vpermb           , VexRvm_Lx          , E(660F38,8D,_,x,_,0,4,FVM), 0                         , 113, 0  , 356, 183), // #1280
   INST(Vpermd           , VexRvm_Lx          , V(660F38,36,_,x,0,0,4,FV ), 0                         , 109, 0  , 377, 164), // #1281
-  INST(Vpermi2b         , VexRvm_Lx          , E(660F38,75,_,x,_,0,4,FVM), 0                         , 113, 0  , 356, 182), // #1282
+  INST(Vpermi2b         , VexRvm_Lx          , E(660F38,75,_,x,_,0,4,FVM), 0                         , 113, 0  , 356, 183), // #1282
   INST(Vpermi2d         , VexRvm_Lx          , E(660F38,76,_,x,_,0,4,FV ), 0                         , 113, 0  , 217, 149), // #1283
   INST(Vpermi2pd        , VexRvm_Lx          , E(660F38,77,_,x,_,1,4,FV ), 0                         , 112, 0  , 216, 149), // #1284
   INST(Vpermi2ps        , VexRvm_Lx          , E(660F38,77,_,x,_,0,4,FV ), 0                         , 113, 0  , 217, 149), // #1285
@@ -1336,58 +1336,58 @@ const InstDB::InstInfo InstDB::_inst_info_table[] = {
   INST(Vpermi2w         , VexRvm_Lx          , E(660F38,75,_,x,_,1,4,FVM), 0                         , 112, 0  , 356, 160), // #1287
   INST(Vpermil2pd       , VexRvrmiRvmri_Lx   , V(660F3A,49,_,x,x,_,_,_  ), 0                         , 75 , 0  , 378, 163), // #1288
   INST(Vpermil2ps       , VexRvrmiRvmri_Lx   , V(660F3A,48,_,x,x,_,_,_  ), 0                         , 75 , 0  , 378, 163), // #1289
-  INST(Vpermilpd        , VexRvmRmi_Lx       , V(660F38,0D,_,x,0,1,4,FV ), V(660F3A,05,_,x,0,1,4,FV ), 203, 112, 379, 144), // #1290
-  INST(Vpermilps        , VexRvmRmi_Lx       , V(660F38,0C,_,x,0,0,4,FV ), V(660F3A,04,_,x,0,0,4,FV ), 109, 113, 380, 144), // #1291
-  INST(Vpermpd          , VexRvmRmi_Lx       , E(660F38,16,_,x,1,1,4,FV ), V(660F3A,01,_,x,1,1,4,FV ), 206, 114, 381, 164), // #1292
+  INST(Vpermilpd        , VexRvmRmi_Lx       , V(660F38,0D,_,x,0,1,4,FV ), V(660F3A,05,_,x,0,1,4,FV ), 203, 113, 379, 144), // #1290
+  INST(Vpermilps        , VexRvmRmi_Lx       , V(660F38,0C,_,x,0,0,4,FV ), V(660F3A,04,_,x,0,0,4,FV ), 109, 114, 380, 144), // #1291
+  INST(Vpermpd          , VexRvmRmi_Lx       , E(660F38,16,_,x,1,1,4,FV ), V(660F3A,01,_,x,1,1,4,FV ), 208, 115, 381, 164), // #1292
   INST(Vpermps          , VexRvm_Lx          , V(660F38,16,_,x,0,0,4,FV ), 0                         , 109, 0  , 377, 164), // #1293
-  INST(Vpermq           , VexRvmRmi_Lx       , E(660F38,36,_,x,_,1,4,FV ), V(660F3A,00,_,x,1,1,4,FV ), 112, 115, 381, 164), // #1294
-  INST(Vpermt2b         , VexRvm_Lx          , E(660F38,7D,_,x,_,0,4,FVM), 0                         , 113, 0  , 356, 182), // #1295
+  INST(Vpermq           , VexRvmRmi_Lx       , E(660F38,36,_,x,_,1,4,FV ), V(660F3A,00,_,x,1,1,4,FV ), 112, 116, 381, 164), // #1294
+  INST(Vpermt2b         , VexRvm_Lx          , E(660F38,7D,_,x,_,0,4,FVM), 0                         , 113, 0  , 356, 183), // #1295
   INST(Vpermt2d         , VexRvm_Lx          , E(660F38,7E,_,x,_,0,4,FV ), 0                         , 113, 0  , 217, 149), // #1296
   INST(Vpermt2pd        , VexRvm_Lx          , E(660F38,7F,_,x,_,1,4,FV ), 0                         , 112, 0  , 216, 149), // #1297
   INST(Vpermt2ps        , VexRvm_Lx          , E(660F38,7F,_,x,_,0,4,FV ), 0                         , 113, 0  , 217, 149), // #1298
   INST(Vpermt2q         , VexRvm_Lx          , E(660F38,7E,_,x,_,1,4,FV ), 0                         , 112, 0  , 216, 149), // #1299
   INST(Vpermt2w         , VexRvm_Lx          , E(660F38,7D,_,x,_,1,4,FVM), 0                         , 112, 0  , 356, 160), // #1300
   INST(Vpermw           , VexRvm_Lx          , E(660F38,8D,_,x,_,1,4,FVM), 0                         , 112, 0  , 356, 160), // #1301
-  INST(Vpexpandb        , VexRm_Lx           , E(660F38,62,_,x,_,0,0,T1S), 0                         , 204, 0  , 282, 178), // #1302
+  INST(Vpexpandb        , VexRm_Lx           , E(660F38,62,_,x,_,0,0,T1S), 0                         , 204, 0  , 282, 179), // #1302
   INST(Vpexpandd        , VexRm_Lx           , E(660F38,89,_,x,_,0,2,T1S), 0                         , 128, 0  , 282, 149), // #1303
   INST(Vpexpandq        , VexRm_Lx           , E(660F38,89,_,x,_,1,3,T1S), 0                         , 127, 0  , 282, 149), // #1304
-  INST(Vpexpandw        , VexRm_Lx           , E(660F38,62,_,x,_,1,1,T1S), 0                         , 205, 0  , 282, 178), // #1305
-  INST(Vpextrb          , VexMri             , V(660F3A,14,_,0,0,I,0,T1S), 0                         , 75 , 0  , 382, 183), // #1306
+  INST(Vpexpandw        , VexRm_Lx           , E(660F38,62,_,x,_,1,1,T1S), 0                         , 205, 0  , 282, 179), // #1305
+  INST(Vpextrb          , VexMri             , V(660F3A,14,_,0,0,I,0,T1S), 0                         , 75 , 0  , 382, 184), // #1306
   INST(Vpextrd          , VexMri             , V(660F3A,16,_,0,0,0,2,T1S), 0                         , 175, 0  , 286, 150), // #1307
-  INST(Vpextrq          , VexMri             , V(660F3A,16,_,0,1,1,3,T1S), 0                         , 207, 0  , 383, 150), // #1308
-  INST(Vpextrw          , VexMri_Vpextrw     , V(660F3A,15,_,0,0,I,1,T1S), 0                         , 208, 0  , 384, 183), // #1309
-  INST(Vpgatherdd       , VexRmvRm_VM        , V(660F38,90,_,x,0,_,_,_  ), E(660F38,90,_,x,_,0,2,T1S), 30 , 116, 305, 164), // #1310
-  INST(Vpgatherdq       , VexRmvRm_VM        , V(660F38,90,_,x,1,_,_,_  ), E(660F38,90,_,x,_,1,3,T1S), 187, 117, 304, 164), // #1311
-  INST(Vpgatherqd       , VexRmvRm_VM        , V(660F38,91,_,x,0,_,_,_  ), E(660F38,91,_,x,_,0,2,T1S), 30 , 118, 307, 164), // #1312
-  INST(Vpgatherqq       , VexRmvRm_VM        , V(660F38,91,_,x,1,_,_,_  ), E(660F38,91,_,x,_,1,3,T1S), 187, 119, 306, 164), // #1313
+  INST(Vpextrq          , VexMri             , V(660F3A,16,_,0,1,1,3,T1S), 0                         , 209, 0  , 383, 150), // #1308
+  INST(Vpextrw          , VexMri_Vpextrw     , V(660F3A,15,_,0,0,I,1,T1S), 0                         , 210, 0  , 384, 184), // #1309
+  INST(Vpgatherdd       , VexRmvRm_VM        , V(660F38,90,_,x,0,_,_,_  ), E(660F38,90,_,x,_,0,2,T1S), 30 , 117, 305, 164), // #1310
+  INST(Vpgatherdq       , VexRmvRm_VM        , V(660F38,90,_,x,1,_,_,_  ), E(660F38,90,_,x,_,1,3,T1S), 187, 118, 304, 164), // #1311
+  INST(Vpgatherqd       , VexRmvRm_VM        , V(660F38,91,_,x,0,_,_,_  ), E(660F38,91,_,x,_,0,2,T1S), 30 , 119, 307, 164), // #1312
+  INST(Vpgatherqq       , VexRmvRm_VM        , V(660F38,91,_,x,1,_,_,_  ), E(660F38,91,_,x,_,1,3,T1S), 187, 120, 306, 164), // #1313
   INST(Vphaddbd         , VexRm              , V(XOP_M9,C2,_,0,0,_,_,_  ), 0                         , 81 , 0  , 207, 163), // #1314
   INST(Vphaddbq         , VexRm              , V(XOP_M9,C3,_,0,0,_,_,_  ), 0                         , 81 , 0  , 207, 163), // #1315
   INST(Vphaddbw         , VexRm              , V(XOP_M9,C1,_,0,0,_,_,_  ), 0                         , 81 , 0  , 207, 163), // #1316
-  INST(Vphaddd          , VexRvm_Lx          , V(660F38,02,_,x,I,_,_,_  ), 0                         , 30 , 0  , 205, 171), // #1317
+  INST(Vphaddd          , VexRvm_Lx          , V(660F38,02,_,x,I,_,_,_  ), 0                         , 30 , 0  , 205, 174), // #1317
   INST(Vphadddq         , VexRm              , V(XOP_M9,CB,_,0,0,_,_,_  ), 0                         , 81 , 0  , 207, 163), // #1318
-  INST(Vphaddsw         , VexRvm_Lx          , V(660F38,03,_,x,I,_,_,_  ), 0                         , 30 , 0  , 205, 171), // #1319
+  INST(Vphaddsw         , VexRvm_Lx          , V(660F38,03,_,x,I,_,_,_  ), 0                         , 30 , 0  , 205, 174), // #1319
   INST(Vphaddubd        , VexRm              , V(XOP_M9,D2,_,0,0,_,_,_  ), 0                         , 81 , 0  , 207, 163), // #1320
   INST(Vphaddubq        , VexRm              , V(XOP_M9,D3,_,0,0,_,_,_  ), 0                         , 81 , 0  , 207, 163), // #1321
   INST(Vphaddubw        , VexRm              , V(XOP_M9,D1,_,0,0,_,_,_  ), 0                         , 81 , 0  , 207, 163), // #1322
   INST(Vphaddudq        , VexRm              , V(XOP_M9,DB,_,0,0,_,_,_  ), 0                         , 81 , 0  , 207, 163), // #1323
   INST(Vphadduwd        , VexRm              , V(XOP_M9,D6,_,0,0,_,_,_  ), 0                         , 81 , 0  , 207, 163), // #1324
   INST(Vphadduwq        , VexRm              , V(XOP_M9,D7,_,0,0,_,_,_  ), 0                         , 81 , 0  , 207, 163), // #1325
-  INST(Vphaddw          , VexRvm_Lx          , V(660F38,01,_,x,I,_,_,_  ), 0                         , 30 , 0  , 205, 171), // #1326
+  INST(Vphaddw          , VexRvm_Lx          , V(660F38,01,_,x,I,_,_,_  ), 0                         , 30 , 0  , 205, 174), // #1326
   INST(Vphaddwd         , VexRm              , V(XOP_M9,C6,_,0,0,_,_,_  ), 0                         , 81 , 0  , 207, 163), // #1327
   INST(Vphaddwq         , VexRm              , V(XOP_M9,C7,_,0,0,_,_,_  ), 0                         , 81 , 0  , 207, 163), // #1328
   INST(Vphminposuw      , VexRm              , V(660F38,41,_,0,I,_,_,_  ), 0                         , 30 , 0  , 207, 146), // #1329
   INST(Vphsubbw         , VexRm              , V(XOP_M9,E1,_,0,0,_,_,_  ), 0                         , 81 , 0  , 207, 163), // #1330
-  INST(Vphsubd          , VexRvm_Lx          , V(660F38,06,_,x,I,_,_,_  ), 0                         , 30 , 0  , 205, 171), // #1331
+  INST(Vphsubd          , VexRvm_Lx          , V(660F38,06,_,x,I,_,_,_  ), 0                         , 30 , 0  , 205, 174), // #1331
   INST(Vphsubdq         , VexRm              , V(XOP_M9,E3,_,0,0,_,_,_  ), 0                         , 81 , 0  , 207, 163), // #1332
-  INST(Vphsubsw         , VexRvm_Lx          , V(660F38,07,_,x,I,_,_,_  ), 0                         , 30 , 0  , 205, 171), // #1333
-  INST(Vphsubw          , VexRvm_Lx          , V(660F38,05,_,x,I,_,_,_  ), 0                         , 30 , 0  , 205, 171), // #1334
+  INST(Vphsubsw         , VexRvm_Lx          , V(660F38,07,_,x,I,_,_,_  ), 0                         , 30 , 0  , 205, 174), // #1333
+  INST(Vphsubw          , VexRvm_Lx          , V(660F38,05,_,x,I,_,_,_  ), 0                         , 30 , 0  , 205, 174), // #1334
   INST(Vphsubwd         , VexRm              , V(XOP_M9,E2,_,0,0,_,_,_  ), 0                         , 81 , 0  , 207, 163), // #1335
-  INST(Vpinsrb          , VexRvmi            , V(660F3A,20,_,0,0,I,0,T1S), 0                         , 75 , 0  , 385, 183), // #1336
+  INST(Vpinsrb          , VexRvmi            , V(660F3A,20,_,0,0,I,0,T1S), 0                         , 75 , 0  , 385, 184), // #1336
   INST(Vpinsrd          , VexRvmi            , V(660F3A,22,_,0,0,0,2,T1S), 0                         , 175, 0  , 386, 150), // #1337
-  INST(Vpinsrq          , VexRvmi            , V(660F3A,22,_,0,1,1,3,T1S), 0                         , 207, 0  , 387, 150), // #1338
-  INST(Vpinsrw          , VexRvmi            , V(660F00,C4,_,0,0,I,1,T1S), 0                         , 209, 0  , 388, 183), // #1339
-  INST(Vplzcntd         , VexRm_Lx           , E(660F38,44,_,x,_,0,4,FV ), 0                         , 113, 0  , 374, 175), // #1340
-  INST(Vplzcntq         , VexRm_Lx           , E(660F38,44,_,x,_,1,4,FV ), 0                         , 112, 0  , 349, 175), // #1341
+  INST(Vpinsrq          , VexRvmi            , V(660F3A,22,_,0,1,1,3,T1S), 0                         , 209, 0  , 387, 150), // #1338
+  INST(Vpinsrw          , VexRvmi            , V(660F00,C4,_,0,0,I,1,T1S), 0                         , 211, 0  , 388, 184), // #1339
+  INST(Vplzcntd         , VexRm_Lx           , E(660F38,44,_,x,_,0,4,FV ), 0                         , 113, 0  , 374, 176), // #1340
+  INST(Vplzcntq         , VexRm_Lx           , E(660F38,44,_,x,_,1,4,FV ), 0                         , 112, 0  , 349, 176), // #1341
   INST(Vpmacsdd         , VexRvmr            , V(XOP_M8,9E,_,0,0,_,_,_  ), 0                         , 202, 0  , 389, 163), // #1342
   INST(Vpmacsdqh        , VexRvmr            , V(XOP_M8,9F,_,0,0,_,_,_  ), 0                         , 202, 0  , 389, 163), // #1343
   INST(Vpmacsdql        , VexRvmr            , V(XOP_M8,97,_,0,0,_,_,_  ), 0                         , 202, 0  , 389, 163), // #1344
@@ -1400,12 +1400,12 @@ const InstDB::InstInfo InstDB::_inst_info_table[] = {
   INST(Vpmacsww         , VexRvmr            , V(XOP_M8,95,_,0,0,_,_,_  ), 0                         , 202, 0  , 389, 163), // #1351
   INST(Vpmadcsswd       , VexRvmr            , V(XOP_M8,A6,_,0,0,_,_,_  ), 0                         , 202, 0  , 389, 163), // #1352
   INST(Vpmadcswd        , VexRvmr            , V(XOP_M8,B6,_,0,0,_,_,_  ), 0                         , 202, 0  , 389, 163), // #1353
-  INST(Vpmadd52huq      , VexRvm_Lx          , V(660F38,B5,_,x,1,1,4,FV ), 0                         , 180, 0  , 390, 184), // #1354
-  INST(Vpmadd52luq      , VexRvm_Lx          , V(660F38,B4,_,x,1,1,4,FV ), 0                         , 180, 0  , 390, 184), // #1355
+  INST(Vpmadd52huq      , VexRvm_Lx          , V(660F38,B5,_,x,1,1,4,FV ), 0                         , 180, 0  , 390, 185), // #1354
+  INST(Vpmadd52luq      , VexRvm_Lx          , V(660F38,B4,_,x,1,1,4,FV ), 0                         , 180, 0  , 390, 185), // #1355
   INST(Vpmaddubsw       , VexRvm_Lx          , V(660F38,04,_,x,I,I,4,FVM), 0                         , 109, 0  , 315, 173), // #1356
   INST(Vpmaddwd         , VexRvm_Lx          , V(660F00,F5,_,x,I,I,4,FVM), 0                         , 143, 0  , 315, 173), // #1357
-  INST(Vpmaskmovd       , VexRvmMvr_Lx       , V(660F38,8C,_,x,0,_,_,_  ), V(660F38,8E,_,x,0,_,_,_  ), 30 , 120, 322, 153), // #1358
-  INST(Vpmaskmovq       , VexRvmMvr_Lx       , V(660F38,8C,_,x,1,_,_,_  ), V(660F38,8E,_,x,1,_,_,_  ), 187, 121, 322, 153), // #1359
+  INST(Vpmaskmovd       , VexRvmMvr_Lx       , V(660F38,8C,_,x,0,_,_,_  ), V(660F38,8E,_,x,0,_,_,_  ), 30 , 121, 322, 153), // #1358
+  INST(Vpmaskmovq       , VexRvmMvr_Lx       , V(660F38,8C,_,x,1,_,_,_  ), V(660F38,8E,_,x,1,_,_,_  ), 187, 122, 322, 153), // #1359
   INST(Vpmaxsb          , VexRvm_Lx          , V(660F38,3C,_,x,I,I,4,FVM), 0                         , 109, 0  , 391, 173), // #1360
   INST(Vpmaxsd          , VexRvm_Lx          , V(660F38,3D,_,x,I,0,4,FV ), 0                         , 109, 0  , 214, 154), // #1361
   INST(Vpmaxsq          , VexRvm_Lx          , E(660F38,3D,_,x,_,1,4,FV ), 0                         , 112, 0  , 216, 149), // #1362
@@ -1424,43 +1424,43 @@ const InstDB::InstInfo InstDB::_inst_info_table[] = {
   INST(Vpminuw          , VexRvm_Lx          , V(660F38,3A,_,x,I,_,4,FVM), 0                         , 109, 0  , 391, 173), // #1375
   INST(Vpmovb2m         , VexRm_Lx           , E(F30F38,29,_,x,_,0,_,_  ), 0                         , 200, 0  , 392, 160), // #1376
   INST(Vpmovd2m         , VexRm_Lx           , E(F30F38,39,_,x,_,0,_,_  ), 0                         , 200, 0  , 392, 152), // #1377
-  INST(Vpmovdb          , VexMr_Lx           , E(F30F38,31,_,x,_,0,2,QVM), 0                         , 210, 0  , 393, 149), // #1378
-  INST(Vpmovdw          , VexMr_Lx           , E(F30F38,33,_,x,_,0,3,HVM), 0                         , 211, 0  , 394, 149), // #1379
+  INST(Vpmovdb          , VexMr_Lx           , E(F30F38,31,_,x,_,0,2,QVM), 0                         , 212, 0  , 393, 149), // #1378
+  INST(Vpmovdw          , VexMr_Lx           , E(F30F38,33,_,x,_,0,3,HVM), 0                         , 213, 0  , 394, 149), // #1379
   INST(Vpmovm2b         , VexRm_Lx           , E(F30F38,28,_,x,_,0,_,_  ), 0                         , 200, 0  , 359, 160), // #1380
   INST(Vpmovm2d         , VexRm_Lx           , E(F30F38,38,_,x,_,0,_,_  ), 0                         , 200, 0  , 359, 152), // #1381
   INST(Vpmovm2q         , VexRm_Lx           , E(F30F38,38,_,x,_,1,_,_  ), 0                         , 199, 0  , 359, 152), // #1382
   INST(Vpmovm2w         , VexRm_Lx           , E(F30F38,28,_,x,_,1,_,_  ), 0                         , 199, 0  , 359, 160), // #1383
-  INST(Vpmovmskb        , VexRm_Lx           , V(660F00,D7,_,x,I,_,_,_  ), 0                         , 71 , 0  , 335, 171), // #1384
+  INST(Vpmovmskb        , VexRm_Lx           , V(660F00,D7,_,x,I,_,_,_  ), 0                         , 71 , 0  , 335, 174), // #1384
   INST(Vpmovq2m         , VexRm_Lx           , E(F30F38,39,_,x,_,1,_,_  ), 0                         , 199, 0  , 392, 152), // #1385
-  INST(Vpmovqb          , VexMr_Lx           , E(F30F38,32,_,x,_,0,1,OVM), 0                         , 212, 0  , 395, 149), // #1386
-  INST(Vpmovqd          , VexMr_Lx           , E(F30F38,35,_,x,_,0,3,HVM), 0                         , 211, 0  , 394, 149), // #1387
-  INST(Vpmovqw          , VexMr_Lx           , E(F30F38,34,_,x,_,0,2,QVM), 0                         , 210, 0  , 393, 149), // #1388
-  INST(Vpmovsdb         , VexMr_Lx           , E(F30F38,21,_,x,_,0,2,QVM), 0                         , 210, 0  , 393, 149), // #1389
-  INST(Vpmovsdw         , VexMr_Lx           , E(F30F38,23,_,x,_,0,3,HVM), 0                         , 211, 0  , 394, 149), // #1390
-  INST(Vpmovsqb         , VexMr_Lx           , E(F30F38,22,_,x,_,0,1,OVM), 0                         , 212, 0  , 395, 149), // #1391
-  INST(Vpmovsqd         , VexMr_Lx           , E(F30F38,25,_,x,_,0,3,HVM), 0                         , 211, 0  , 394, 149), // #1392
-  INST(Vpmovsqw         , VexMr_Lx           , E(F30F38,24,_,x,_,0,2,QVM), 0                         , 210, 0  , 393, 149), // #1393
-  INST(Vpmovswb         , VexMr_Lx           , E(F30F38,20,_,x,_,0,3,HVM), 0                         , 211, 0  , 394, 160), // #1394
-  INST(Vpmovsxbd        , VexRm_Lx           , V(660F38,21,_,x,I,I,2,QVM), 0                         , 213, 0  , 396, 154), // #1395
-  INST(Vpmovsxbq        , VexRm_Lx           , V(660F38,22,_,x,I,I,1,OVM), 0                         , 214, 0  , 397, 154), // #1396
+  INST(Vpmovqb          , VexMr_Lx           , E(F30F38,32,_,x,_,0,1,OVM), 0                         , 214, 0  , 395, 149), // #1386
+  INST(Vpmovqd          , VexMr_Lx           , E(F30F38,35,_,x,_,0,3,HVM), 0                         , 213, 0  , 394, 149), // #1387
+  INST(Vpmovqw          , VexMr_Lx           , E(F30F38,34,_,x,_,0,2,QVM), 0                         , 212, 0  , 393, 149), // #1388
+  INST(Vpmovsdb         , VexMr_Lx           , E(F30F38,21,_,x,_,0,2,QVM), 0                         , 212, 0  , 393, 149), // #1389
+  INST(Vpmovsdw         , VexMr_Lx           , E(F30F38,23,_,x,_,0,3,HVM), 0                         , 213, 0  , 394, 149), // #1390
+  INST(Vpmovsqb         , VexMr_Lx           , E(F30F38,22,_,x,_,0,1,OVM), 0                         , 214, 0  , 395, 149), // #1391
+  INST(Vpmovsqd         , VexMr_Lx           , E(F30F38,25,_,x,_,0,3,HVM), 0                         , 213, 0  , 394, 149), // #1392
+  INST(Vpmovsqw         , VexMr_Lx           , E(F30F38,24,_,x,_,0,2,QVM), 0                         , 212, 0  , 393, 149), // #1393
+  INST(Vpmovswb         , VexMr_Lx           , E(F30F38,20,_,x,_,0,3,HVM), 0                         , 213, 0  , 394, 160), // #1394
+  INST(Vpmovsxbd        , VexRm_Lx           , V(660F38,21,_,x,I,I,2,QVM), 0                         , 215, 0  , 396, 154), // #1395
+  INST(Vpmovsxbq        , VexRm_Lx           , V(660F38,22,_,x,I,I,1,OVM), 0                         , 216, 0  , 397, 154), // #1396
   INST(Vpmovsxbw        , VexRm_Lx           , V(660F38,20,_,x,I,I,3,HVM), 0                         , 138, 0  , 398, 173), // #1397
   INST(Vpmovsxdq        , VexRm_Lx           , V(660F38,25,_,x,I,0,3,HVM), 0                         , 138, 0  , 398, 154), // #1398
   INST(Vpmovsxwd        , VexRm_Lx           , V(660F38,23,_,x,I,I,3,HVM), 0                         , 138, 0  , 398, 154), // #1399
-  INST(Vpmovsxwq        , VexRm_Lx           , V(660F38,24,_,x,I,I,2,QVM), 0                         , 213, 0  , 396, 154), // #1400
-  INST(Vpmovusdb        , VexMr_Lx           , E(F30F38,11,_,x,_,0,2,QVM), 0                         , 210, 0  , 393, 149), // #1401
-  INST(Vpmovusdw        , VexMr_Lx           , E(F30F38,13,_,x,_,0,3,HVM), 0                         , 211, 0  , 394, 149), // #1402
-  INST(Vpmovusqb        , VexMr_Lx           , E(F30F38,12,_,x,_,0,1,OVM), 0                         , 212, 0  , 395, 149), // #1403
-  INST(Vpmovusqd        , VexMr_Lx           , E(F30F38,15,_,x,_,0,3,HVM), 0                         , 211, 0  , 394, 149), // #1404
-  INST(Vpmovusqw        , VexMr_Lx           , E(F30F38,14,_,x,_,0,2,QVM), 0                         , 210, 0  , 393, 149), // #1405
-  INST(Vpmovuswb        , VexMr_Lx           , E(F30F38,10,_,x,_,0,3,HVM), 0                         , 211, 0  , 394, 160), // #1406
+  INST(Vpmovsxwq        , VexRm_Lx           , V(660F38,24,_,x,I,I,2,QVM), 0                         , 215, 0  , 396, 154), // #1400
+  INST(Vpmovusdb        , VexMr_Lx           , E(F30F38,11,_,x,_,0,2,QVM), 0                         , 212, 0  , 393, 149), // #1401
+  INST(Vpmovusdw        , VexMr_Lx           , E(F30F38,13,_,x,_,0,3,HVM), 0                         , 213, 0  , 394, 149), // #1402
+  INST(Vpmovusqb        , VexMr_Lx           , E(F30F38,12,_,x,_,0,1,OVM), 0                         , 214, 0  , 395, 149), // #1403
+  INST(Vpmovusqd        , VexMr_Lx           , E(F30F38,15,_,x,_,0,3,HVM), 0                         , 213, 0  , 394, 149), // #1404
+  INST(Vpmovusqw        , VexMr_Lx           , E(F30F38,14,_,x,_,0,2,QVM), 0                         , 212, 0  , 393, 149), // #1405
+  INST(Vpmovuswb        , VexMr_Lx           , E(F30F38,10,_,x,_,0,3,HVM), 0                         , 213, 0  , 394, 160), // #1406
   INST(Vpmovw2m         , VexRm_Lx           , E(F30F38,29,_,x,_,1,_,_  ), 0                         , 199, 0  , 392, 160), // #1407
-  INST(Vpmovwb          , VexMr_Lx           , E(F30F38,30,_,x,_,0,3,HVM), 0                         , 211, 0  , 394, 160), // #1408
-  INST(Vpmovzxbd        , VexRm_Lx           , V(660F38,31,_,x,I,I,2,QVM), 0                         , 213, 0  , 396, 154), // #1409
-  INST(Vpmovzxbq        , VexRm_Lx           , V(660F38,32,_,x,I,I,1,OVM), 0                         , 214, 0  , 397, 154), // #1410
+  INST(Vpmovwb          , VexMr_Lx           , E(F30F38,30,_,x,_,0,3,HVM), 0                         , 213, 0  , 394, 160), // #1408
+  INST(Vpmovzxbd        , VexRm_Lx           , V(660F38,31,_,x,I,I,2,QVM), 0                         , 215, 0  , 396, 154), // #1409
+  INST(Vpmovzxbq        , VexRm_Lx           , V(660F38,32,_,x,I,I,1,OVM), 0                         , 216, 0  , 397, 154), // #1410
   INST(Vpmovzxbw        , VexRm_Lx           , V(660F38,30,_,x,I,I,3,HVM), 0                         , 138, 0  , 398, 173), // #1411
   INST(Vpmovzxdq        , VexRm_Lx           , V(660F38,35,_,x,I,0,3,HVM), 0                         , 138, 0  , 398, 154), // #1412
   INST(Vpmovzxwd        , VexRm_Lx           , V(660F38,33,_,x,I,I,3,HVM), 0                         , 138, 0  , 398, 154), // #1413
-  INST(Vpmovzxwq        , VexRm_Lx           , V(660F38,34,_,x,I,I,2,QVM), 0                         , 213, 0  , 396, 154), // #1414
+  INST(Vpmovzxwq        , VexRm_Lx           , V(660F38,34,_,x,I,I,2,QVM), 0                         , 215, 0  , 396, 154), // #1414
   INST(Vpmuldq          , VexRvm_Lx          , V(660F38,28,_,x,I,1,4,FV ), 0                         , 203, 0  , 211, 154), // #1415
   INST(Vpmulhrsw        , VexRvm_Lx          , V(660F38,0B,_,x,I,I,4,FVM), 0                         , 109, 0  , 315, 173), // #1416
   INST(Vpmulhuw         , VexRvm_Lx          , V(660F00,E4,_,x,I,I,4,FVM), 0                         , 143, 0  , 315, 173), // #1417
@@ -1468,28 +1468,28 @@ const InstDB::InstInfo InstDB::_inst_info_table[] = {
   INST(Vpmulld          , VexRvm_Lx          , V(660F38,40,_,x,I,0,4,FV ), 0                         , 109, 0  , 212, 154), // #1419
   INST(Vpmullq          , VexRvm_Lx          , E(660F38,40,_,x,_,1,4,FV ), 0                         , 112, 0  , 216, 152), // #1420
   INST(Vpmullw          , VexRvm_Lx          , V(660F00,D5,_,x,I,I,4,FVM), 0                         , 143, 0  , 315, 173), // #1421
-  INST(Vpmultishiftqb   , VexRvm_Lx          , E(660F38,83,_,x,_,1,4,FV ), 0                         , 112, 0  , 216, 182), // #1422
+  INST(Vpmultishiftqb   , VexRvm_Lx          , E(660F38,83,_,x,_,1,4,FV ), 0                         , 112, 0  , 216, 183), // #1422
   INST(Vpmuludq         , VexRvm_Lx          , V(660F00,F4,_,x,I,1,4,FV ), 0                         , 102, 0  , 211, 154), // #1423
-  INST(Vpopcntb         , VexRm_Lx           , E(660F38,54,_,x,_,0,4,FV ), 0                         , 113, 0  , 282, 185), // #1424
-  INST(Vpopcntd         , VexRm_Lx           , E(660F38,55,_,x,_,0,4,FVM), 0                         , 113, 0  , 374, 186), // #1425
-  INST(Vpopcntq         , VexRm_Lx           , E(660F38,55,_,x,_,1,4,FVM), 0                         , 112, 0  , 349, 186), // #1426
-  INST(Vpopcntw         , VexRm_Lx           , E(660F38,54,_,x,_,1,4,FV ), 0                         , 112, 0  , 282, 185), // #1427
-  INST(Vpor             , VexRvm_Lx          , V(660F00,EB,_,x,I,_,_,_  ), 0                         , 71 , 0  , 350, 171), // #1428
+  INST(Vpopcntb         , VexRm_Lx           , E(660F38,54,_,x,_,0,4,FV ), 0                         , 113, 0  , 282, 186), // #1424
+  INST(Vpopcntd         , VexRm_Lx           , E(660F38,55,_,x,_,0,4,FVM), 0                         , 113, 0  , 374, 187), // #1425
+  INST(Vpopcntq         , VexRm_Lx           , E(660F38,55,_,x,_,1,4,FVM), 0                         , 112, 0  , 349, 187), // #1426
+  INST(Vpopcntw         , VexRm_Lx           , E(660F38,54,_,x,_,1,4,FV ), 0                         , 112, 0  , 282, 186), // #1427
+  INST(Vpor             , VexRvm_Lx          , V(660F00,EB,_,x,I,_,_,_  ), 0                         , 71 , 0  , 350, 174), // #1428
   INST(Vpord            , VexRvm_Lx          , E(660F00,EB,_,x,_,0,4,FV ), 0                         , 192, 0  , 351, 149), // #1429
   INST(Vporq            , VexRvm_Lx          , E(660F00,EB,_,x,_,1,4,FV ), 0                         , 134, 0  , 355, 149), // #1430
   INST(Vpperm           , VexRvrmRvmr        , V(XOP_M8,A3,_,0,x,_,_,_  ), 0                         , 202, 0  , 399, 163), // #1431
-  INST(Vprold           , VexVmi_Lx          , E(660F00,72,1,x,_,0,4,FV ), 0                         , 215, 0  , 400, 149), // #1432
-  INST(Vprolq           , VexVmi_Lx          , E(660F00,72,1,x,_,1,4,FV ), 0                         , 216, 0  , 401, 149), // #1433
+  INST(Vprold           , VexVmi_Lx          , E(660F00,72,1,x,_,0,4,FV ), 0                         , 217, 0  , 400, 149), // #1432
+  INST(Vprolq           , VexVmi_Lx          , E(660F00,72,1,x,_,1,4,FV ), 0                         , 218, 0  , 401, 149), // #1433
   INST(Vprolvd          , VexRvm_Lx          , E(660F38,15,_,x,_,0,4,FV ), 0                         , 113, 0  , 217, 149), // #1434
   INST(Vprolvq          , VexRvm_Lx          , E(660F38,15,_,x,_,1,4,FV ), 0                         , 112, 0  , 216, 149), // #1435
   INST(Vprord           , VexVmi_Lx          , E(660F00,72,0,x,_,0,4,FV ), 0                         , 192, 0  , 400, 149), // #1436
   INST(Vprorq           , VexVmi_Lx          , E(660F00,72,0,x,_,1,4,FV ), 0                         , 134, 0  , 401, 149), // #1437
   INST(Vprorvd          , VexRvm_Lx          , E(660F38,14,_,x,_,0,4,FV ), 0                         , 113, 0  , 217, 149), // #1438
   INST(Vprorvq          , VexRvm_Lx          , E(660F38,14,_,x,_,1,4,FV ), 0                         , 112, 0  , 216, 149), // #1439
-  INST(Vprotb           , VexRvmRmvRmi       , V(XOP_M9,90,_,0,x,_,_,_  ), V(XOP_M8,C0,_,0,x,_,_,_  ), 81 , 122, 402, 163), // #1440
-  INST(Vprotd           , VexRvmRmvRmi       , V(XOP_M9,92,_,0,x,_,_,_  ), V(XOP_M8,C2,_,0,x,_,_,_  ), 81 , 123, 402, 163), // #1441
-  INST(Vprotq           , VexRvmRmvRmi       , V(XOP_M9,93,_,0,x,_,_,_  ), V(XOP_M8,C3,_,0,x,_,_,_  ), 81 , 124, 402, 163), // #1442
-  INST(Vprotw           , VexRvmRmvRmi       , V(XOP_M9,91,_,0,x,_,_,_  ), V(XOP_M8,C1,_,0,x,_,_,_  ), 81 , 125, 402, 163), // #1443
+  INST(Vprotb           , VexRvmRmvRmi       , V(XOP_M9,90,_,0,x,_,_,_  ), V(XOP_M8,C0,_,0,x,_,_,_  ), 81 , 123, 402, 163), // #1440
+  INST(Vprotd           , VexRvmRmvRmi       , V(XOP_M9,92,_,0,x,_,_,_  ), V(XOP_M8,C2,_,0,x,_,_,_  ), 81 , 124, 402, 163), // #1441
+  INST(Vprotq           , VexRvmRmvRmi       , V(XOP_M9,93,_,0,x,_,_,_  ), V(XOP_M8,C3,_,0,x,_,_,_  ), 81 , 125, 402, 163), // #1442
+  INST(Vprotw           , VexRvmRmvRmi       , V(XOP_M9,91,_,0,x,_,_,_  ), V(XOP_M8,C1,_,0,x,_,_,_  ), 81 , 126, 402, 163), // #1443
   INST(Vpsadbw          , VexRvm_Lx          , V(660F00,F6,_,x,I,I,4,FVM), 0                         , 143, 0  , 206, 173), // #1444
   INST(Vpscatterdd      , VexMr_VM           , E(660F38,A0,_,x,_,0,2,T1S), 0                         , 128, 0  , 403, 149), // #1445
   INST(Vpscatterdq      , VexMr_VM           , E(660F38,A0,_,x,_,1,3,T1S), 0                         , 127, 0  , 404, 149), // #1446
@@ -1501,48 +1501,48 @@ const InstDB::InstInfo InstDB::_inst_info_table[] = {
   INST(Vpshaw           , VexRvmRmv          , V(XOP_M9,99,_,0,x,_,_,_  ), 0                         , 81 , 0  , 407, 163), // #1452
   INST(Vpshlb           , VexRvmRmv          , V(XOP_M9,94,_,0,x,_,_,_  ), 0                         , 81 , 0  , 407, 163), // #1453
   INST(Vpshld           , VexRvmRmv          , V(XOP_M9,96,_,0,x,_,_,_  ), 0                         , 81 , 0  , 407, 163), // #1454
-  INST(Vpshldd          , VexRvmi_Lx         , E(660F3A,71,_,x,_,0,4,FV ), 0                         , 110, 0  , 209, 178), // #1455
-  INST(Vpshldq          , VexRvmi_Lx         , E(660F3A,71,_,x,_,1,4,FV ), 0                         , 111, 0  , 210, 178), // #1456
-  INST(Vpshldvd         , VexRvm_Lx          , E(660F38,71,_,x,_,0,4,FV ), 0                         , 113, 0  , 217, 178), // #1457
-  INST(Vpshldvq         , VexRvm_Lx          , E(660F38,71,_,x,_,1,4,FV ), 0                         , 112, 0  , 216, 178), // #1458
-  INST(Vpshldvw         , VexRvm_Lx          , E(660F38,70,_,x,_,1,4,FVM), 0                         , 112, 0  , 356, 178), // #1459
-  INST(Vpshldw          , VexRvmi_Lx         , E(660F3A,70,_,x,_,1,4,FVM), 0                         , 111, 0  , 280, 178), // #1460
+  INST(Vpshldd          , VexRvmi_Lx         , E(660F3A,71,_,x,_,0,4,FV ), 0                         , 110, 0  , 209, 179), // #1455
+  INST(Vpshldq          , VexRvmi_Lx         , E(660F3A,71,_,x,_,1,4,FV ), 0                         , 111, 0  , 210, 179), // #1456
+  INST(Vpshldvd         , VexRvm_Lx          , E(660F38,71,_,x,_,0,4,FV ), 0                         , 113, 0  , 217, 179), // #1457
+  INST(Vpshldvq         , VexRvm_Lx          , E(660F38,71,_,x,_,1,4,FV ), 0                         , 112, 0  , 216, 179), // #1458
+  INST(Vpshldvw         , VexRvm_Lx          , E(660F38,70,_,x,_,1,4,FVM), 0                         , 112, 0  , 356, 179), // #1459
+  INST(Vpshldw          , VexRvmi_Lx         , E(660F3A,70,_,x,_,1,4,FVM), 0                         , 111, 0  , 280, 179), // #1460
   INST(Vpshlq           , VexRvmRmv          , V(XOP_M9,97,_,0,x,_,_,_  ), 0                         , 81 , 0  , 407, 163), // #1461
   INST(Vpshlw           , VexRvmRmv          , V(XOP_M9,95,_,0,x,_,_,_  ), 0                         , 81 , 0  , 407, 163), // #1462
-  INST(Vpshrdd          , VexRvmi_Lx         , E(660F3A,73,_,x,_,0,4,FV ), 0                         , 110, 0  , 209, 178), // #1463
-  INST(Vpshrdq          , VexRvmi_Lx         , E(660F3A,73,_,x,_,1,4,FV ), 0                         , 111, 0  , 210, 178), // #1464
-  INST(Vpshrdvd         , VexRvm_Lx          , E(660F38,73,_,x,_,0,4,FV ), 0                         , 113, 0  , 217, 178), // #1465
-  INST(Vpshrdvq         , VexRvm_Lx          , E(660F38,73,_,x,_,1,4,FV ), 0                         , 112, 0  , 216, 178), // #1466
-  INST(Vpshrdvw         , VexRvm_Lx          , E(660F38,72,_,x,_,1,4,FVM), 0                         , 112, 0  , 356, 178), // #1467
-  INST(Vpshrdw          , VexRvmi_Lx         , E(660F3A,72,_,x,_,1,4,FVM), 0                         , 111, 0  , 280, 178), // #1468
+  INST(Vpshrdd          , VexRvmi_Lx         , E(660F3A,73,_,x,_,0,4,FV ), 0                         , 110, 0  , 209, 179), // #1463
+  INST(Vpshrdq          , VexRvmi_Lx         , E(660F3A,73,_,x,_,1,4,FV ), 0                         , 111, 0  , 210, 179), // #1464
+  INST(Vpshrdvd         , VexRvm_Lx          , E(660F38,73,_,x,_,0,4,FV ), 0                         , 113, 0  , 217, 179), // #1465
+  INST(Vpshrdvq         , VexRvm_Lx          , E(660F38,73,_,x,_,1,4,FV ), 0                         , 112, 0  , 216, 179), // #1466
+  INST(Vpshrdvw         , VexRvm_Lx          , E(660F38,72,_,x,_,1,4,FVM), 0                         , 112, 0  , 356, 179), // #1467
+  INST(Vpshrdw          , VexRvmi_Lx         , E(660F3A,72,_,x,_,1,4,FVM), 0                         , 111, 0  , 280, 179), // #1468
   INST(Vpshufb          , VexRvm_Lx          , V(660F38,00,_,x,I,I,4,FVM), 0                         , 109, 0  , 315, 173), // #1469
-  INST(Vpshufbitqmb     , VexRvm_Lx          , E(660F38,8F,_,x,0,0,4,FVM), 0                         , 113, 0  , 408, 185), // #1470
+  INST(Vpshufbitqmb     , VexRvm_Lx          , E(660F38,8F,_,x,0,0,4,FVM), 0                         , 113, 0  , 408, 186), // #1470
   INST(Vpshufd          , VexRmi_Lx          , V(660F00,70,_,x,I,0,4,FV ), 0                         , 143, 0  , 409, 154), // #1471
   INST(Vpshufhw         , VexRmi_Lx          , V(F30F00,70,_,x,I,I,4,FVM), 0                         , 160, 0  , 410, 173), // #1472
-  INST(Vpshuflw         , VexRmi_Lx          , V(F20F00,70,_,x,I,I,4,FVM), 0                         , 217, 0  , 410, 173), // #1473
-  INST(Vpsignb          , VexRvm_Lx          , V(660F38,08,_,x,I,_,_,_  ), 0                         , 30 , 0  , 205, 171), // #1474
-  INST(Vpsignd          , VexRvm_Lx          , V(660F38,0A,_,x,I,_,_,_  ), 0                         , 30 , 0  , 205, 171), // #1475
-  INST(Vpsignw          , VexRvm_Lx          , V(660F38,09,_,x,I,_,_,_  ), 0                         , 30 , 0  , 205, 171), // #1476
-  INST(Vpslld           , VexRvmVmi_Lx_MEvex , V(660F00,F2,_,x,I,0,4,128), V(660F00,72,6,x,I,0,4,FV ), 218, 126, 411, 154), // #1477
-  INST(Vpslldq          , VexVmi_Lx_MEvex    , V(660F00,73,7,x,I,I,4,FVM), 0                         , 219, 0  , 412, 173), // #1478
-  INST(Vpsllq           , VexRvmVmi_Lx_MEvex , V(660F00,F3,_,x,I,1,4,128), V(660F00,73,6,x,I,1,4,FV ), 220, 127, 413, 154), // #1479
+  INST(Vpshuflw         , VexRmi_Lx          , V(F20F00,70,_,x,I,I,4,FVM), 0                         , 219, 0  , 410, 173), // #1473
+  INST(Vpsignb          , VexRvm_Lx          , V(660F38,08,_,x,I,_,_,_  ), 0                         , 30 , 0  , 205, 174), // #1474
+  INST(Vpsignd          , VexRvm_Lx          , V(660F38,0A,_,x,I,_,_,_  ), 0                         , 30 , 0  , 205, 174), // #1475
+  INST(Vpsignw          , VexRvm_Lx          , V(660F38,09,_,x,I,_,_,_  ), 0                         , 30 , 0  , 205, 174), // #1476
+  INST(Vpslld           , VexRvmVmi_Lx_MEvex , V(660F00,F2,_,x,I,0,4,128), V(660F00,72,6,x,I,0,4,FV ), 220, 127, 411, 154), // #1477
+  INST(Vpslldq          , VexVmi_Lx_MEvex    , V(660F00,73,7,x,I,I,4,FVM), 0                         , 221, 0  , 412, 173), // #1478
+  INST(Vpsllq           , VexRvmVmi_Lx_MEvex , V(660F00,F3,_,x,I,1,4,128), V(660F00,73,6,x,I,1,4,FV ), 222, 128, 413, 154), // #1479
   INST(Vpsllvd          , VexRvm_Lx          , V(660F38,47,_,x,0,0,4,FV ), 0                         , 109, 0  , 212, 164), // #1480
   INST(Vpsllvq          , VexRvm_Lx          , V(660F38,47,_,x,1,1,4,FV ), 0                         , 180, 0  , 211, 164), // #1481
   INST(Vpsllvw          , VexRvm_Lx          , E(660F38,12,_,x,_,1,4,FVM), 0                         , 112, 0  , 356, 160), // #1482
-  INST(Vpsllw           , VexRvmVmi_Lx_MEvex , V(660F00,F1,_,x,I,I,4,128), V(660F00,71,6,x,I,I,4,FVM), 218, 128, 414, 173), // #1483
-  INST(Vpsrad           , VexRvmVmi_Lx_MEvex , V(660F00,E2,_,x,I,0,4,128), V(660F00,72,4,x,I,0,4,FV ), 218, 129, 411, 154), // #1484
-  INST(Vpsraq           , VexRvmVmi_Lx_MEvex , E(660F00,E2,_,x,_,1,4,128), E(660F00,72,4,x,_,1,4,FV ), 221, 130, 415, 149), // #1485
+  INST(Vpsllw           , VexRvmVmi_Lx_MEvex , V(660F00,F1,_,x,I,I,4,128), V(660F00,71,6,x,I,I,4,FVM), 220, 129, 414, 173), // #1483
+  INST(Vpsrad           , VexRvmVmi_Lx_MEvex , V(660F00,E2,_,x,I,0,4,128), V(660F00,72,4,x,I,0,4,FV ), 220, 130, 411, 154), // #1484
+  INST(Vpsraq           , VexRvmVmi_Lx_MEvex , E(660F00,E2,_,x,_,1,4,128), E(660F00,72,4,x,_,1,4,FV ), 223, 131, 415, 149), // #1485
   INST(Vpsravd          , VexRvm_Lx          , V(660F38,46,_,x,0,0,4,FV ), 0                         , 109, 0  , 212, 164), // #1486
   INST(Vpsravq          , VexRvm_Lx          , E(660F38,46,_,x,_,1,4,FV ), 0                         , 112, 0  , 216, 149), // #1487
   INST(Vpsravw          , VexRvm_Lx          , E(660F38,11,_,x,_,1,4,FVM), 0                         , 112, 0  , 356, 160), // #1488
-  INST(Vpsraw           , VexRvmVmi_Lx_MEvex , V(660F00,E1,_,x,I,I,4,128), V(660F00,71,4,x,I,I,4,FVM), 218, 131, 414, 173), // #1489
-  INST(Vpsrld           , VexRvmVmi_Lx_MEvex , V(660F00,D2,_,x,I,0,4,128), V(660F00,72,2,x,I,0,4,FV ), 218, 132, 411, 154), // #1490
-  INST(Vpsrldq          , VexVmi_Lx_MEvex    , V(660F00,73,3,x,I,I,4,FVM), 0                         , 222, 0  , 412, 173), // #1491
-  INST(Vpsrlq           , VexRvmVmi_Lx_MEvex , V(660F00,D3,_,x,I,1,4,128), V(660F00,73,2,x,I,1,4,FV ), 220, 133, 413, 154), // #1492
+  INST(Vpsraw           , VexRvmVmi_Lx_MEvex , V(660F00,E1,_,x,I,I,4,128), V(660F00,71,4,x,I,I,4,FVM), 220, 132, 414, 173), // #1489
+  INST(Vpsrld           , VexRvmVmi_Lx_MEvex , V(660F00,D2,_,x,I,0,4,128), V(660F00,72,2,x,I,0,4,FV ), 220, 133, 411, 154), // #1490
+  INST(Vpsrldq          , VexVmi_Lx_MEvex    , V(660F00,73,3,x,I,I,4,FVM), 0                         , 224, 0  , 412, 173), // #1491
+  INST(Vpsrlq           , VexRvmVmi_Lx_MEvex , V(660F00,D3,_,x,I,1,4,128), V(660F00,73,2,x,I,1,4,FV ), 222, 134, 413, 154), // #1492
   INST(Vpsrlvd          , VexRvm_Lx          , V(660F38,45,_,x,0,0,4,FV ), 0                         , 109, 0  , 212, 164), // #1493
   INST(Vpsrlvq          , VexRvm_Lx          , V(660F38,45,_,x,1,1,4,FV ), 0                         , 180, 0  , 211, 164), // #1494
   INST(Vpsrlvw          , VexRvm_Lx          , E(660F38,10,_,x,_,1,4,FVM), 0                         , 112, 0  , 356, 160), // #1495
-  INST(Vpsrlw           , VexRvmVmi_Lx_MEvex , V(660F00,D1,_,x,I,I,4,128), V(660F00,71,2,x,I,I,4,FVM), 218, 134, 414, 173), // #1496
+  INST(Vpsrlw           , VexRvmVmi_Lx_MEvex , V(660F00,D1,_,x,I,I,4,128), V(660F00,71,2,x,I,I,4,FVM), 220, 135, 414, 173), // #1496
   INST(Vpsubb           , VexRvm_Lx          , V(660F00,F8,_,x,I,I,4,FVM), 0                         , 143, 0  , 416, 173), // #1497
   INST(Vpsubd           , VexRvm_Lx          , V(660F00,FA,_,x,I,0,4,FV ), 0                         , 143, 0  , 417, 154), // #1498
   INST(Vpsubq           , VexRvm_Lx          , V(660F00,FB,_,x,I,1,4,FV ), 0                         , 102, 0  , 418, 154), // #1499
@@ -1553,15 +1553,15 @@ const InstDB::InstInfo InstDB::_inst_info_table[] = {
   INST(Vpsubw           , VexRvm_Lx          , V(660F00,F9,_,x,I,I,4,FVM), 0                         , 143, 0  , 416, 173), // #1504
   INST(Vpternlogd       , VexRvmi_Lx         , E(660F3A,25,_,x,_,0,4,FV ), 0                         , 110, 0  , 209, 149), // #1505
   INST(Vpternlogq       , VexRvmi_Lx         , E(660F3A,25,_,x,_,1,4,FV ), 0                         , 111, 0  , 210, 149), // #1506
-  INST(Vptest           , VexRm_Lx           , V(660F38,17,_,x,I,_,_,_  ), 0                         , 30 , 0  , 301, 177), // #1507
+  INST(Vptest           , VexRm_Lx           , V(660F38,17,_,x,I,_,_,_  ), 0                         , 30 , 0  , 301, 178), // #1507
   INST(Vptestmb         , VexRvm_Lx          , E(660F38,26,_,x,_,0,4,FVM), 0                         , 113, 0  , 408, 160), // #1508
   INST(Vptestmd         , VexRvm_Lx          , E(660F38,27,_,x,_,0,4,FV ), 0                         , 113, 0  , 419, 149), // #1509
   INST(Vptestmq         , VexRvm_Lx          , E(660F38,27,_,x,_,1,4,FV ), 0                         , 112, 0  , 420, 149), // #1510
   INST(Vptestmw         , VexRvm_Lx          , E(660F38,26,_,x,_,1,4,FVM), 0                         , 112, 0  , 408, 160), // #1511
   INST(Vptestnmb        , VexRvm_Lx          , E(F30F38,26,_,x,_,0,4,FVM), 0                         , 169, 0  , 408, 160), // #1512
   INST(Vptestnmd        , VexRvm_Lx          , E(F30F38,27,_,x,_,0,4,FV ), 0                         , 169, 0  , 419, 149), // #1513
-  INST(Vptestnmq        , VexRvm_Lx          , E(F30F38,27,_,x,_,1,4,FV ), 0                         , 223, 0  , 420, 149), // #1514
-  INST(Vptestnmw        , VexRvm_Lx          , E(F30F38,26,_,x,_,1,4,FVM), 0                         , 223, 0  , 408, 160), // #1515
+  INST(Vptestnmq        , VexRvm_Lx          , E(F30F38,27,_,x,_,1,4,FV ), 0                         , 225, 0  , 420, 149), // #1514
+  INST(Vptestnmw        , VexRvm_Lx          , E(F30F38,26,_,x,_,1,4,FVM), 0                         , 225, 0  , 408, 160), // #1515
   INST(Vpunpckhbw       , VexRvm_Lx          , V(660F00,68,_,x,I,I,4,FVM), 0                         , 143, 0  , 315, 173), // #1516
   INST(Vpunpckhdq       , VexRvm_Lx          , V(660F00,6A,_,x,I,0,4,FV ), 0                         , 143, 0  , 212, 154), // #1517
   INST(Vpunpckhqdq      , VexRvm_Lx          , V(660F00,6D,_,x,I,1,4,FV ), 0                         , 102, 0  , 211, 154), // #1518
@@ -1570,7 +1570,7 @@ const InstDB::InstInfo InstDB::_inst_info_table[] = {
   INST(Vpunpckldq       , VexRvm_Lx          , V(660F00,62,_,x,I,0,4,FV ), 0                         , 143, 0  , 212, 154), // #1521
   INST(Vpunpcklqdq      , VexRvm_Lx          , V(660F00,6C,_,x,I,1,4,FV ), 0                         , 102, 0  , 211, 154), // #1522
   INST(Vpunpcklwd       , VexRvm_Lx          , V(660F00,61,_,x,I,I,4,FVM), 0                         , 143, 0  , 315, 173), // #1523
-  INST(Vpxor            , VexRvm_Lx          , V(660F00,EF,_,x,I,_,_,_  ), 0                         , 71 , 0  , 352, 171), // #1524
+  INST(Vpxor            , VexRvm_Lx          , V(660F00,EF,_,x,I,_,_,_  ), 0                         , 71 , 0  , 352, 174), // #1524
   INST(Vpxord           , VexRvm_Lx          , E(660F00,EF,_,x,_,0,4,FV ), 0                         , 192, 0  , 353, 149), // #1525
   INST(Vpxorq           , VexRvm_Lx          , E(660F00,EF,_,x,_,1,4,FV ), 0                         , 134, 0  , 354, 149), // #1526
   INST(Vrangepd         , VexRvmi_Lx         , E(660F3A,50,_,x,_,1,4,FV ), 0                         , 111, 0  , 288, 152), // #1527
@@ -1619,35 +1619,35 @@ const InstDB::InstInfo InstDB::_inst_info_table[] = {
   INST(Vscatterdps      , VexMr_VM           , E(660F38,A2,_,x,_,0,2,T1S), 0                         , 128, 0  , 403, 149), // #1570
   INST(Vscatterqpd      , VexMr_VM           , E(660F38,A3,_,x,_,1,3,T1S), 0                         , 127, 0  , 406, 149), // #1571
   INST(Vscatterqps      , VexMr_VM           , E(660F38,A3,_,x,_,0,2,T1S), 0                         , 128, 0  , 405, 149), // #1572
-  INST(Vsha512msg1      , VexRm              , V(F20F38,CC,_,1,0,_,_,_  ), 0                         , 224, 0  , 432, 187), // #1573
-  INST(Vsha512msg2      , VexRm              , V(F20F38,CD,_,1,0,_,_,_  ), 0                         , 224, 0  , 433, 187), // #1574
-  INST(Vsha512rnds2     , VexRvm             , V(F20F38,CB,_,1,0,_,_,_  ), 0                         , 224, 0  , 434, 187), // #1575
+  INST(Vsha512msg1      , VexRm              , V(F20F38,CC,_,1,0,_,_,_  ), 0                         , 226, 0  , 432, 188), // #1573
+  INST(Vsha512msg2      , VexRm              , V(F20F38,CD,_,1,0,_,_,_  ), 0                         , 226, 0  , 433, 188), // #1574
+  INST(Vsha512rnds2     , VexRvm             , V(F20F38,CB,_,1,0,_,_,_  ), 0                         , 226, 0  , 434, 188), // #1575
   INST(Vshuff32x4       , VexRvmi_Lx         , E(660F3A,23,_,x,_,0,4,FV ), 0                         , 110, 0  , 435, 149), // #1576
   INST(Vshuff64x2       , VexRvmi_Lx         , E(660F3A,23,_,x,_,1,4,FV ), 0                         , 111, 0  , 436, 149), // #1577
   INST(Vshufi32x4       , VexRvmi_Lx         , E(660F3A,43,_,x,_,0,4,FV ), 0                         , 110, 0  , 435, 149), // #1578
   INST(Vshufi64x2       , VexRvmi_Lx         , E(660F3A,43,_,x,_,1,4,FV ), 0                         , 111, 0  , 436, 149), // #1579
   INST(Vshufpd          , VexRvmi_Lx         , V(660F00,C6,_,x,I,1,4,FV ), 0                         , 102, 0  , 437, 144), // #1580
   INST(Vshufps          , VexRvmi_Lx         , V(000F00,C6,_,x,I,0,4,FV ), 0                         , 104, 0  , 438, 144), // #1581
-  INST(Vsm3msg1         , VexRvm             , V(000F38,DA,_,0,0,_,_,_  ), 0                         , 11 , 0  , 439, 188), // #1582
-  INST(Vsm3msg2         , VexRvm             , V(660F38,DA,_,0,0,_,_,_  ), 0                         , 30 , 0  , 439, 188), // #1583
-  INST(Vsm3rnds2        , VexRvmi            , V(660F3A,DE,_,0,0,_,_,_  ), 0                         , 75 , 0  , 281, 188), // #1584
-  INST(Vsm4key4         , VexRvm_Lx          , V(F30F38,DA,_,x,0,_,_,_  ), 0                         , 89 , 0  , 205, 189), // #1585
-  INST(Vsm4rnds4        , VexRvm_Lx          , V(F20F38,DA,_,x,0,_,_,_  ), 0                         , 85 , 0  , 205, 189), // #1586
+  INST(Vsm3msg1         , VexRvm             , V(000F38,DA,_,0,0,_,_,_  ), 0                         , 11 , 0  , 439, 189), // #1582
+  INST(Vsm3msg2         , VexRvm             , V(660F38,DA,_,0,0,_,_,_  ), 0                         , 30 , 0  , 439, 189), // #1583
+  INST(Vsm3rnds2        , VexRvmi            , V(660F3A,DE,_,0,0,_,_,_  ), 0                         , 75 , 0  , 281, 189), // #1584
+  INST(Vsm4key4         , VexRvm_Lx          , V(F30F38,DA,_,x,0,0,4,FVM), 0                         , 131, 0  , 206, 190), // #1585
+  INST(Vsm4rnds4        , VexRvm_Lx          , V(F20F38,DA,_,x,0,0,4,FVM), 0                         , 206, 0  , 206, 190), // #1586
   INST(Vsqrtpd          , VexRm_Lx           , V(660F00,51,_,x,I,1,4,FV ), 0                         , 102, 0  , 440, 144), // #1587
   INST(Vsqrtph          , VexRm_Lx           , E(00MAP5,51,_,_,_,0,4,FV ), 0                         , 103, 0  , 251, 145), // #1588
   INST(Vsqrtps          , VexRm_Lx           , V(000F00,51,_,x,I,0,4,FV ), 0                         , 104, 0  , 239, 144), // #1589
   INST(Vsqrtsd          , VexRvm             , V(F20F00,51,_,I,I,1,3,T1S), 0                         , 105, 0  , 202, 144), // #1590
   INST(Vsqrtsh          , VexRvm             , E(F3MAP5,51,_,_,_,0,1,T1S), 0                         , 106, 0  , 203, 145), // #1591
   INST(Vsqrtss          , VexRvm             , V(F30F00,51,_,I,I,0,2,T1S), 0                         , 107, 0  , 204, 144), // #1592
-  INST(Vstmxcsr         , VexM               , V(000F00,AE,3,0,I,_,_,_  ), 0                         , 225, 0  , 320, 146), // #1593
+  INST(Vstmxcsr         , VexM               , V(000F00,AE,3,0,I,_,_,_  ), 0                         , 227, 0  , 320, 146), // #1593
   INST(Vsubpd           , VexRvm_Lx          , V(660F00,5C,_,x,I,1,4,FV ), 0                         , 102, 0  , 199, 144), // #1594
   INST(Vsubph           , VexRvm_Lx          , E(00MAP5,5C,_,_,_,0,4,FV ), 0                         , 103, 0  , 200, 145), // #1595
   INST(Vsubps           , VexRvm_Lx          , V(000F00,5C,_,x,I,0,4,FV ), 0                         , 104, 0  , 201, 144), // #1596
   INST(Vsubsd           , VexRvm             , V(F20F00,5C,_,I,I,1,3,T1S), 0                         , 105, 0  , 202, 144), // #1597
   INST(Vsubsh           , VexRvm             , E(F3MAP5,5C,_,_,_,0,1,T1S), 0                         , 106, 0  , 203, 145), // #1598
   INST(Vsubss           , VexRvm             , V(F30F00,5C,_,I,I,0,2,T1S), 0                         , 107, 0  , 204, 144), // #1599
-  INST(Vtestpd          , VexRm_Lx           , V(660F38,0F,_,x,0,_,_,_  ), 0                         , 30 , 0  , 301, 177), // #1600
-  INST(Vtestps          , VexRm_Lx           , V(660F38,0E,_,x,0,_,_,_  ), 0                         , 30 , 0  , 301, 177), // #1601
+  INST(Vtestpd          , VexRm_Lx           , V(660F38,0F,_,x,0,_,_,_  ), 0                         , 30 , 0  , 301, 178), // #1600
+  INST(Vtestps          , VexRm_Lx           , V(660F38,0E,_,x,0,_,_,_  ), 0                         , 30 , 0  , 301, 178), // #1601
   INST(Vucomisd         , VexRm              , V(660F00,2E,_,I,I,1,3,T1S), 0                         , 124, 0  , 233, 155), // #1602
   INST(Vucomish         , VexRm              , E(00MAP5,2E,_,_,_,0,1,T1S), 0                         , 125, 0  , 234, 156), // #1603
   INST(Vucomiss         , VexRm              , V(000F00,2E,_,I,I,0,2,T1S), 0                         , 126, 0  , 235, 155), // #1604
@@ -1660,40 +1660,40 @@ const InstDB::InstInfo InstDB::_inst_info_table[] = {
   INST(Vzeroall         , VexOp              , V(000F00,77,_,1,I,_,_,_  ), 0                         , 70 , 0  , 441, 146), // #1611
   INST(Vzeroupper       , VexOp              , V(000F00,77,_,0,I,_,_,_  ), 0                         , 74 , 0  , 441, 146), // #1612
   INST(Wbinvd           , X86Op              , O(000F00,09,_,_,_,_,_,_  ), 0                         , 5  , 0  , 31 , 45 ), // #1613
-  INST(Wbnoinvd         , X86Op              , O(F30F00,09,_,_,_,_,_,_  ), 0                         , 7  , 0  , 31 , 190), // #1614
-  INST(Wrfsbase         , X86M               , O(F30F00,AE,2,_,x,_,_,_  ), 0                         , 226, 0  , 177, 122), // #1615
-  INST(Wrgsbase         , X86M               , O(F30F00,AE,3,_,x,_,_,_  ), 0                         , 227, 0  , 177, 122), // #1616
-  INST(Wrmsr            , X86Op              , O(000F00,30,_,_,_,_,_,_  ), 0                         , 5  , 0  , 180, 191), // #1617
+  INST(Wbnoinvd         , X86Op              , O(F30F00,09,_,_,_,_,_,_  ), 0                         , 7  , 0  , 31 , 191), // #1614
+  INST(Wrfsbase         , X86M               , O(F30F00,AE,2,_,x,_,_,_  ), 0                         , 228, 0  , 177, 122), // #1615
+  INST(Wrgsbase         , X86M               , O(F30F00,AE,3,_,x,_,_,_  ), 0                         , 229, 0  , 177, 122), // #1616
+  INST(Wrmsr            , X86Op              , O(000F00,30,_,_,_,_,_,_  ), 0                         , 5  , 0  , 180, 192), // #1617
   INST(Wrssd            , X86Mr              , O(000F38,F6,_,_,_,_,_,_  ), 0                         , 1  , 0  , 442, 65 ), // #1618
-  INST(Wrssq            , X86Mr              , O(000F38,F6,_,_,1,_,_,_  ), 0                         , 228, 0  , 443, 65 ), // #1619
+  INST(Wrssq            , X86Mr              , O(000F38,F6,_,_,1,_,_,_  ), 0                         , 230, 0  , 443, 65 ), // #1619
   INST(Wrussd           , X86Mr              , O(660F38,F5,_,_,_,_,_,_  ), 0                         , 2  , 0  , 442, 65 ), // #1620
-  INST(Wrussq           , X86Mr              , O(660F38,F5,_,_,1,_,_,_  ), 0                         , 229, 0  , 443, 65 ), // #1621
-  INST(Xabort           , X86Op_Mod11RM_I8   , O(000000,C6,7,_,_,_,_,_  ), 0                         , 29 , 0  , 83 , 192), // #1622
+  INST(Wrussq           , X86Mr              , O(660F38,F5,_,_,1,_,_,_  ), 0                         , 231, 0  , 443, 65 ), // #1621
+  INST(Xabort           , X86Op_Mod11RM_I8   , O(000000,C6,7,_,_,_,_,_  ), 0                         , 29 , 0  , 83 , 193), // #1622
   INST(Xadd             , X86Xadd            , O(000F00,C0,_,_,x,_,_,_  ), 0                         , 5  , 0  , 444, 40 ), // #1623
-  INST(Xbegin           , X86JmpRel          , O(000000,C7,7,_,_,_,_,_  ), 0                         , 29 , 0  , 445, 192), // #1624
+  INST(Xbegin           , X86JmpRel          , O(000000,C7,7,_,_,_,_,_  ), 0                         , 29 , 0  , 445, 193), // #1624
   INST(Xchg             , X86Xchg            , O(000000,86,_,_,x,_,_,_  ), 0                         , 0  , 0  , 446, 0  ), // #1625
-  INST(Xend             , X86Op              , O(000F01,D5,_,_,_,_,_,_  ), 0                         , 23 , 0  , 31 , 192), // #1626
-  INST(Xgetbv           , X86Op              , O(000F01,D0,_,_,_,_,_,_  ), 0                         , 23 , 0  , 180, 193), // #1627
+  INST(Xend             , X86Op              , O(000F01,D5,_,_,_,_,_,_  ), 0                         , 23 , 0  , 31 , 193), // #1626
+  INST(Xgetbv           , X86Op              , O(000F01,D0,_,_,_,_,_,_  ), 0                         , 23 , 0  , 180, 194), // #1627
   INST(Xlatb            , X86Op              , O(000000,D7,_,_,_,_,_,_  ), 0                         , 0  , 0  , 31 , 0  ), // #1628
   INST(Xor              , X86Arith           , O(000000,30,6,_,x,_,_,_  ), 0                         , 34 , 0  , 184, 1  ), // #1629
   INST(Xorpd            , ExtRm              , O(660F00,57,_,_,_,_,_,_  ), 0                         , 4  , 0  , 154, 5  ), // #1630
   INST(Xorps            , ExtRm              , O(000F00,57,_,_,_,_,_,_  ), 0                         , 5  , 0  , 154, 6  ), // #1631
-  INST(Xresldtrk        , X86Op              , O(F20F01,E9,_,_,_,_,_,_  ), 0                         , 93 , 0  , 31 , 194), // #1632
-  INST(Xrstor           , X86M_Only_EDX_EAX  , O(000F00,AE,5,_,_,_,_,_  ), 0                         , 79 , 0  , 447, 193), // #1633
-  INST(Xrstor64         , X86M_Only_EDX_EAX  , O(000F00,AE,5,_,1,_,_,_  ), 0                         , 230, 0  , 448, 193), // #1634
-  INST(Xrstors          , X86M_Only_EDX_EAX  , O(000F00,C7,3,_,_,_,_,_  ), 0                         , 80 , 0  , 447, 195), // #1635
-  INST(Xrstors64        , X86M_Only_EDX_EAX  , O(000F00,C7,3,_,1,_,_,_  ), 0                         , 231, 0  , 448, 195), // #1636
-  INST(Xsave            , X86M_Only_EDX_EAX  , O(000F00,AE,4,_,_,_,_,_  ), 0                         , 98 , 0  , 447, 193), // #1637
-  INST(Xsave64          , X86M_Only_EDX_EAX  , O(000F00,AE,4,_,1,_,_,_  ), 0                         , 232, 0  , 448, 193), // #1638
-  INST(Xsavec           , X86M_Only_EDX_EAX  , O(000F00,C7,4,_,_,_,_,_  ), 0                         , 98 , 0  , 447, 196), // #1639
-  INST(Xsavec64         , X86M_Only_EDX_EAX  , O(000F00,C7,4,_,1,_,_,_  ), 0                         , 232, 0  , 448, 196), // #1640
-  INST(Xsaveopt         , X86M_Only_EDX_EAX  , O(000F00,AE,6,_,_,_,_,_  ), 0                         , 82 , 0  , 447, 197), // #1641
-  INST(Xsaveopt64       , X86M_Only_EDX_EAX  , O(000F00,AE,6,_,1,_,_,_  ), 0                         , 233, 0  , 448, 197), // #1642
-  INST(Xsaves           , X86M_Only_EDX_EAX  , O(000F00,C7,5,_,_,_,_,_  ), 0                         , 79 , 0  , 447, 195), // #1643
-  INST(Xsaves64         , X86M_Only_EDX_EAX  , O(000F00,C7,5,_,1,_,_,_  ), 0                         , 230, 0  , 448, 195), // #1644
-  INST(Xsetbv           , X86Op              , O(000F01,D1,_,_,_,_,_,_  ), 0                         , 23 , 0  , 180, 193), // #1645
-  INST(Xsusldtrk        , X86Op              , O(F20F01,E8,_,_,_,_,_,_  ), 0                         , 93 , 0  , 31 , 194), // #1646
-  INST(Xtest            , X86Op              , O(000F01,D6,_,_,_,_,_,_  ), 0                         , 23 , 0  , 31 , 198)  // #1647
+  INST(Xresldtrk        , X86Op              , O(F20F01,E9,_,_,_,_,_,_  ), 0                         , 93 , 0  , 31 , 195), // #1632
+  INST(Xrstor           , X86M_Only_EDX_EAX  , O(000F00,AE,5,_,_,_,_,_  ), 0                         , 79 , 0  , 447, 194), // #1633
+  INST(Xrstor64         , X86M_Only_EDX_EAX  , O(000F00,AE,5,_,1,_,_,_  ), 0                         , 232, 0  , 448, 194), // #1634
+  INST(Xrstors          , X86M_Only_EDX_EAX  , O(000F00,C7,3,_,_,_,_,_  ), 0                         , 80 , 0  , 447, 196), // #1635
+  INST(Xrstors64        , X86M_Only_EDX_EAX  , O(000F00,C7,3,_,1,_,_,_  ), 0                         , 233, 0  , 448, 196), // #1636
+  INST(Xsave            , X86M_Only_EDX_EAX  , O(000F00,AE,4,_,_,_,_,_  ), 0                         , 98 , 0  , 447, 194), // #1637
+  INST(Xsave64          , X86M_Only_EDX_EAX  , O(000F00,AE,4,_,1,_,_,_  ), 0                         , 234, 0  , 448, 194), // #1638
+  INST(Xsavec           , X86M_Only_EDX_EAX  , O(000F00,C7,4,_,_,_,_,_  ), 0                         , 98 , 0  , 447, 197), // #1639
+  INST(Xsavec64         , X86M_Only_EDX_EAX  , O(000F00,C7,4,_,1,_,_,_  ), 0                         , 234, 0  , 448, 197), // #1640
+  INST(Xsaveopt         , X86M_Only_EDX_EAX  , O(000F00,AE,6,_,_,_,_,_  ), 0                         , 82 , 0  , 447, 198), // #1641
+  INST(Xsaveopt64       , X86M_Only_EDX_EAX  , O(000F00,AE,6,_,1,_,_,_  ), 0                         , 235, 0  , 448, 198), // #1642
+  INST(Xsaves           , X86M_Only_EDX_EAX  , O(000F00,C7,5,_,_,_,_,_  ), 0                         , 79 , 0  , 447, 196), // #1643
+  INST(Xsaves64         , X86M_Only_EDX_EAX  , O(000F00,C7,5,_,1,_,_,_  ), 0                         , 232, 0  , 448, 196), // #1644
+  INST(Xsetbv           , X86Op              , O(000F01,D1,_,_,_,_,_,_  ), 0                         , 23 , 0  , 180, 194), // #1645
+  INST(Xsusldtrk        , X86Op              , O(F20F01,E8,_,_,_,_,_,_  ), 0                         , 93 , 0  , 31 , 195), // #1646
+  INST(Xtest            , X86Op              , O(000F01,D6,_,_,_,_,_,_  ), 0                         , 23 , 0  , 31 , 199)  // #1647
   // ${InstInfo:End}
 };
 #undef NAME_DATA_INDEX
@@ -1716,7 +1716,7 @@ const uint32_t InstDB::main_opcode_table[] = {
   O(F30F38,00,0,0,0,0,0,0   ), // #8 [ref=3x]
   O(660F3A,00,0,0,0,0,0,0   ), // #9 [ref=22x]
   O(000000,00,4,0,0,0,0,0   ), // #10 [ref=4x]
-  V(000F38,00,0,0,0,0,0,None), // #11 [ref=13x]
+  V(000F38,00,0,0,0,0,0,None), // #11 [ref=9x]
   O(F20F38,00,0,0,0,0,0,0   ), // #12 [ref=3x]
   V(XOP_M9,00,1,0,0,0,0,None), // #13 [ref=3x]
   V(XOP_M9,00,6,0,0,0,0,None), // #14 [ref=2x]
@@ -1735,7 +1735,7 @@ const uint32_t InstDB::main_opcode_table[] = {
   O(F30F01,00,0,0,0,0,0,0   ), // #27 [ref=9x]
   O(660F00,00,6,0,0,0,0,0   ), // #28 [ref=3x]
   O(000000,00,7,0,0,0,0,0   ), // #29 [ref=5x]
-  V(660F38,00,0,0,0,0,0,None), // #30 [ref=48x]
+  V(660F38,00,0,0,0,0,0,None), // #30 [ref=46x]
   O(000F00,00,1,0,1,0,0,0   ), // #31 [ref=2x]
   O(000F00,00,1,0,0,0,0,0   ), // #32 [ref=6x]
   O(000000,00,1,0,0,0,0,0   ), // #33 [ref=3x]
@@ -1790,11 +1790,11 @@ const uint32_t InstDB::main_opcode_table[] = {
   O(000F00,00,6,0,0,0,0,0   ), // #82 [ref=6x]
   V(XOP_MA,00,0,0,0,0,0,None), // #83 [ref=1x]
   V(XOP_MA,00,1,0,0,0,0,None), // #84 [ref=1x]
-  V(F20F38,00,0,0,0,0,0,None), // #85 [ref=11x]
+  V(F20F38,00,0,0,0,0,0,None), // #85 [ref=8x]
   O(000F3A,00,0,0,0,0,0,0   ), // #86 [ref=4x]
   O(F30000,00,0,0,0,0,0,0   ), // #87 [ref=1x]
   O(000F0F,00,0,0,0,0,0,0   ), // #88 [ref=26x]
-  V(F30F38,00,0,0,0,0,0,None), // #89 [ref=12x]
+  V(F30F38,00,0,0,0,0,0,None), // #89 [ref=7x]
   O(000F3A,00,0,0,1,0,0,0   ), // #90 [ref=1x]
   O(660F3A,00,0,0,1,0,0,0   ), // #91 [ref=1x]
   O(F30F00,00,4,0,0,0,0,0   ), // #92 [ref=1x]
@@ -1814,7 +1814,7 @@ const uint32_t InstDB::main_opcode_table[] = {
   E(F3MAP5,00,0,0,0,0,1,None), // #106 [ref=13x]
   V(F30F00,00,0,0,0,0,2,None), // #107 [ref=12x]
   V(F20F00,00,0,0,0,0,0,None), // #108 [ref=4x]
-  V(660F38,00,0,0,0,0,4,ByLL), // #109 [ref=50x]
+  V(660F38,00,0,0,0,0,4,ByLL), // #109 [ref=52x]
   E(660F3A,00,0,0,0,0,4,ByLL), // #110 [ref=17x]
   E(660F3A,00,0,0,0,1,4,ByLL), // #111 [ref=18x]
   E(660F38,00,0,0,0,1,4,ByLL), // #112 [ref=38x]
@@ -1836,7 +1836,7 @@ const uint32_t InstDB::main_opcode_table[] = {
   E(660F38,00,0,0,0,0,2,None), // #128 [ref=12x]
   V(F30F00,00,0,0,0,0,3,ByLL), // #129 [ref=1x]
   E(F20F38,00,0,0,0,0,4,ByLL), // #130 [ref=2x]
-  V(F30F38,00,0,0,0,0,4,ByLL), // #131 [ref=1x]
+  V(F30F38,00,0,0,0,0,4,ByLL), // #131 [ref=6x]
   V(F20F00,00,0,0,0,1,4,ByLL), // #132 [ref=1x]
   E(66MAP5,00,0,0,0,1,4,ByLL), // #133 [ref=1x]
   E(660F00,00,0,0,0,1,4,ByLL), // #134 [ref=10x]
@@ -1911,34 +1911,36 @@ const uint32_t InstDB::main_opcode_table[] = {
   V(660F38,00,0,0,0,1,4,ByLL), // #203 [ref=4x]
   E(660F38,00,0,0,0,0,0,None), // #204 [ref=2x]
   E(660F38,00,0,0,0,1,1,None), // #205 [ref=2x]
-  E(660F38,00,0,0,1,1,4,ByLL), // #206 [ref=1x]
-  V(660F3A,00,0,0,1,1,3,None), // #207 [ref=2x]
-  V(660F3A,00,0,0,0,0,1,None), // #208 [ref=1x]
-  V(660F00,00,0,0,0,0,1,None), // #209 [ref=1x]
-  E(F30F38,00,0,0,0,0,2,ByLL), // #210 [ref=6x]
-  E(F30F38,00,0,0,0,0,3,ByLL), // #211 [ref=9x]
-  E(F30F38,00,0,0,0,0,1,ByLL), // #212 [ref=3x]
-  V(660F38,00,0,0,0,0,2,ByLL), // #213 [ref=4x]
-  V(660F38,00,0,0,0,0,1,ByLL), // #214 [ref=2x]
-  E(660F00,00,1,0,0,0,4,ByLL), // #215 [ref=1x]
-  E(660F00,00,1,0,0,1,4,ByLL), // #216 [ref=1x]
-  V(F20F00,00,0,0,0,0,4,ByLL), // #217 [ref=1x]
-  V(660F00,00,0,0,0,0,4,None), // #218 [ref=6x]
-  V(660F00,00,7,0,0,0,4,ByLL), // #219 [ref=1x]
-  V(660F00,00,0,0,0,1,4,None), // #220 [ref=2x]
-  E(660F00,00,0,0,0,1,4,None), // #221 [ref=1x]
-  V(660F00,00,3,0,0,0,4,ByLL), // #222 [ref=1x]
-  E(F30F38,00,0,0,0,1,4,ByLL), // #223 [ref=2x]
-  V(F20F38,00,0,1,0,0,0,None), // #224 [ref=3x]
-  V(000F00,00,3,0,0,0,0,None), // #225 [ref=1x]
-  O(F30F00,00,2,0,0,0,0,0   ), // #226 [ref=1x]
-  O(F30F00,00,3,0,0,0,0,0   ), // #227 [ref=1x]
-  O(000F38,00,0,0,1,0,0,0   ), // #228 [ref=1x]
-  O(660F38,00,0,0,1,0,0,0   ), // #229 [ref=1x]
-  O(000F00,00,5,0,1,0,0,0   ), // #230 [ref=2x]
-  O(000F00,00,3,0,1,0,0,0   ), // #231 [ref=1x]
-  O(000F00,00,4,0,1,0,0,0   ), // #232 [ref=2x]
-  O(000F00,00,6,0,1,0,0,0   )  // #233 [ref=1x]
+  V(F20F38,00,0,0,0,0,4,ByLL), // #206 [ref=3x]
+  V(000F38,00,0,0,0,0,4,ByLL), // #207 [ref=4x]
+  E(660F38,00,0,0,1,1,4,ByLL), // #208 [ref=1x]
+  V(660F3A,00,0,0,1,1,3,None), // #209 [ref=2x]
+  V(660F3A,00,0,0,0,0,1,None), // #210 [ref=1x]
+  V(660F00,00,0,0,0,0,1,None), // #211 [ref=1x]
+  E(F30F38,00,0,0,0,0,2,ByLL), // #212 [ref=6x]
+  E(F30F38,00,0,0,0,0,3,ByLL), // #213 [ref=9x]
+  E(F30F38,00,0,0,0,0,1,ByLL), // #214 [ref=3x]
+  V(660F38,00,0,0,0,0,2,ByLL), // #215 [ref=4x]
+  V(660F38,00,0,0,0,0,1,ByLL), // #216 [ref=2x]
+  E(660F00,00,1,0,0,0,4,ByLL), // #217 [ref=1x]
+  E(660F00,00,1,0,0,1,4,ByLL), // #218 [ref=1x]
+  V(F20F00,00,0,0,0,0,4,ByLL), // #219 [ref=1x]
+  V(660F00,00,0,0,0,0,4,None), // #220 [ref=6x]
+  V(660F00,00,7,0,0,0,4,ByLL), // #221 [ref=1x]
+  V(660F00,00,0,0,0,1,4,None), // #222 [ref=2x]
+  E(660F00,00,0,0,0,1,4,None), // #223 [ref=1x]
+  V(660F00,00,3,0,0,0,4,ByLL), // #224 [ref=1x]
+  E(F30F38,00,0,0,0,1,4,ByLL), // #225 [ref=2x]
+  V(F20F38,00,0,1,0,0,0,None), // #226 [ref=3x]
+  V(000F00,00,3,0,0,0,0,None), // #227 [ref=1x]
+  O(F30F00,00,2,0,0,0,0,0   ), // #228 [ref=1x]
+  O(F30F00,00,3,0,0,0,0,0   ), // #229 [ref=1x]
+  O(000F38,00,0,0,1,0,0,0   ), // #230 [ref=1x]
+  O(660F38,00,0,0,1,0,0,0   ), // #231 [ref=1x]
+  O(000F00,00,5,0,1,0,0,0   ), // #232 [ref=2x]
+  O(000F00,00,3,0,1,0,0,0   ), // #233 [ref=1x]
+  O(000F00,00,4,0,1,0,0,0   ), // #234 [ref=2x]
+  O(000F00,00,6,0,1,0,0,0   )  // #235 [ref=1x]
 };
 // ----------------------------------------------------------------------------
 // ${MainOpcodeTable:End}
@@ -1946,7 +1948,7 @@ const uint32_t InstDB::main_opcode_table[] = {
 // ${AltOpcodeTable:Begin}
 // ------------------- Automatically generated, do not edit -------------------
 const uint32_t InstDB::alt_opcode_table[] = {
-  O(000000,00,0,0,0,0,0,0   ), // #0 [ref=1512x]
+  O(000000,00,0,0,0,0,0,0   ), // #0 [ref=1511x]
   O(660F00,1B,0,0,0,0,0,0   ), // #1 [ref=1x]
   O(000F00,BA,4,0,0,0,0,0   ), // #2 [ref=1x]
   O(000F00,BA,7,0,0,0,0,0   ), // #3 [ref=1x]
@@ -2054,33 +2056,34 @@ const uint32_t InstDB::alt_opcode_table[] = {
   V(660F00,11,0,0,0,1,4,ByLL), // #105 [ref=1x]
   V(000F00,11,0,0,0,0,4,ByLL), // #106 [ref=1x]
   E(66MAP5,7E,0,0,0,0,1,None), // #107 [ref=1x]
-  E(660F38,7A,0,0,0,0,0,None), // #108 [ref=1x]
-  E(660F38,7C,0,0,0,0,0,None), // #109 [ref=1x]
-  E(660F38,7C,0,0,0,1,0,None), // #110 [ref=1x]
-  E(660F38,7B,0,0,0,0,0,None), // #111 [ref=1x]
-  V(660F3A,05,0,0,0,1,4,ByLL), // #112 [ref=1x]
-  V(660F3A,04,0,0,0,0,4,ByLL), // #113 [ref=1x]
-  V(660F3A,01,0,0,1,1,4,ByLL), // #114 [ref=1x]
-  V(660F3A,00,0,0,1,1,4,ByLL), // #115 [ref=1x]
-  E(660F38,90,0,0,0,0,2,None), // #116 [ref=1x]
-  E(660F38,90,0,0,0,1,3,None), // #117 [ref=1x]
-  E(660F38,91,0,0,0,0,2,None), // #118 [ref=1x]
-  E(660F38,91,0,0,0,1,3,None), // #119 [ref=1x]
-  V(660F38,8E,0,0,0,0,0,None), // #120 [ref=1x]
-  V(660F38,8E,0,0,1,0,0,None), // #121 [ref=1x]
-  V(XOP_M8,C0,0,0,0,0,0,None), // #122 [ref=1x]
-  V(XOP_M8,C2,0,0,0,0,0,None), // #123 [ref=1x]
-  V(XOP_M8,C3,0,0,0,0,0,None), // #124 [ref=1x]
-  V(XOP_M8,C1,0,0,0,0,0,None), // #125 [ref=1x]
-  V(660F00,72,6,0,0,0,4,ByLL), // #126 [ref=1x]
-  V(660F00,73,6,0,0,1,4,ByLL), // #127 [ref=1x]
-  V(660F00,71,6,0,0,0,4,ByLL), // #128 [ref=1x]
-  V(660F00,72,4,0,0,0,4,ByLL), // #129 [ref=1x]
-  E(660F00,72,4,0,0,1,4,ByLL), // #130 [ref=1x]
-  V(660F00,71,4,0,0,0,4,ByLL), // #131 [ref=1x]
-  V(660F00,72,2,0,0,0,4,ByLL), // #132 [ref=1x]
-  V(660F00,73,2,0,0,1,4,ByLL), // #133 [ref=1x]
-  V(660F00,71,2,0,0,0,4,ByLL)  // #134 [ref=1x]
+  E(F30F3A,42,0,0,0,0,4,ByLL), // #108 [ref=1x]
+  E(660F38,7A,0,0,0,0,0,None), // #109 [ref=1x]
+  E(660F38,7C,0,0,0,0,0,None), // #110 [ref=1x]
+  E(660F38,7C,0,0,0,1,0,None), // #111 [ref=1x]
+  E(660F38,7B,0,0,0,0,0,None), // #112 [ref=1x]
+  V(660F3A,05,0,0,0,1,4,ByLL), // #113 [ref=1x]
+  V(660F3A,04,0,0,0,0,4,ByLL), // #114 [ref=1x]
+  V(660F3A,01,0,0,1,1,4,ByLL), // #115 [ref=1x]
+  V(660F3A,00,0,0,1,1,4,ByLL), // #116 [ref=1x]
+  E(660F38,90,0,0,0,0,2,None), // #117 [ref=1x]
+  E(660F38,90,0,0,0,1,3,None), // #118 [ref=1x]
+  E(660F38,91,0,0,0,0,2,None), // #119 [ref=1x]
+  E(660F38,91,0,0,0,1,3,None), // #120 [ref=1x]
+  V(660F38,8E,0,0,0,0,0,None), // #121 [ref=1x]
+  V(660F38,8E,0,0,1,0,0,None), // #122 [ref=1x]
+  V(XOP_M8,C0,0,0,0,0,0,None), // #123 [ref=1x]
+  V(XOP_M8,C2,0,0,0,0,0,None), // #124 [ref=1x]
+  V(XOP_M8,C3,0,0,0,0,0,None), // #125 [ref=1x]
+  V(XOP_M8,C1,0,0,0,0,0,None), // #126 [ref=1x]
+  V(660F00,72,6,0,0,0,4,ByLL), // #127 [ref=1x]
+  V(660F00,73,6,0,0,1,4,ByLL), // #128 [ref=1x]
+  V(660F00,71,6,0,0,0,4,ByLL), // #129 [ref=1x]
+  V(660F00,72,4,0,0,0,4,ByLL), // #130 [ref=1x]
+  E(660F00,72,4,0,0,1,4,ByLL), // #131 [ref=1x]
+  V(660F00,71,4,0,0,0,4,ByLL), // #132 [ref=1x]
+  V(660F00,72,2,0,0,0,4,ByLL), // #133 [ref=1x]
+  V(660F00,73,2,0,0,1,4,ByLL), // #134 [ref=1x]
+  V(660F00,71,2,0,0,0,4,ByLL)  // #135 [ref=1x]
 };
 // ----------------------------------------------------------------------------
 // ${AltOpcodeTable:End}
@@ -2305,20 +2308,20 @@ const InstDB::CommonInfo InstDB::_inst_common_info_table[] = {
   { F(Evex)|F(EvexCompat)|F(Vec)|F(Vex)               , X(ER)|X(K)|X(SAE)|X(Z)        , 564, 1 , CONTROL_FLOW(Regular), SAME_REG_HINT(None)}, // #202 [ref=18x]
   { F(Evex)|F(Vec)                                    , X(ER)|X(K)|X(SAE)|X(Z)        , 565, 1 , CONTROL_FLOW(Regular), SAME_REG_HINT(None)}, // #203 [ref=18x]
   { F(Evex)|F(EvexCompat)|F(Vec)|F(Vex)               , X(ER)|X(K)|X(SAE)|X(Z)        , 566, 1 , CONTROL_FLOW(Regular), SAME_REG_HINT(None)}, // #204 [ref=17x]
-  { F(Vec)|F(Vex)                                     , 0                             , 295, 2 , CONTROL_FLOW(Regular), SAME_REG_HINT(None)}, // #205 [ref=29x]
-  { F(Evex)|F(EvexCompat)|F(Vec)|F(Vex)               , 0                             , 295, 3 , CONTROL_FLOW(Regular), SAME_REG_HINT(None)}, // #206 [ref=5x]
+  { F(Vec)|F(Vex)                                     , 0                             , 295, 2 , CONTROL_FLOW(Regular), SAME_REG_HINT(None)}, // #205 [ref=15x]
+  { F(Evex)|F(EvexCompat)|F(Vec)|F(Vex)               , 0                             , 295, 3 , CONTROL_FLOW(Regular), SAME_REG_HINT(None)}, // #206 [ref=7x]
   { F(Vec)|F(Vex)                                     , 0                             , 99 , 1 , CONTROL_FLOW(Regular), SAME_REG_HINT(None)}, // #207 [ref=17x]
   { F(Vec)|F(Vex)                                     , 0                             , 322, 1 , CONTROL_FLOW(Regular), SAME_REG_HINT(None)}, // #208 [ref=1x]
   { F(Evex)|F(Vec)                                    , X(B32)|X(K)|X(Z)              , 298, 3 , CONTROL_FLOW(Regular), SAME_REG_HINT(None)}, // #209 [ref=4x]
   { F(Evex)|F(Vec)                                    , X(B64)|X(K)|X(Z)              , 298, 3 , CONTROL_FLOW(Regular), SAME_REG_HINT(None)}, // #210 [ref=4x]
   { F(Evex)|F(EvexCompat)|F(Vec)|F(Vex)               , X(B64)|X(K)|X(Z)              , 295, 3 , CONTROL_FLOW(Regular), SAME_REG_HINT(None)}, // #211 [ref=10x]
-  { F(Evex)|F(EvexCompat)|F(Vec)|F(Vex)               , X(B32)|X(K)|X(Z)              , 295, 3 , CONTROL_FLOW(Regular), SAME_REG_HINT(None)}, // #212 [ref=12x]
+  { F(Evex)|F(EvexCompat)|F(Vec)|F(Vex)               , X(B32)|X(K)|X(Z)              , 295, 3 , CONTROL_FLOW(Regular), SAME_REG_HINT(None)}, // #212 [ref=24x]
   { F(Evex)|F(EvexCompat)|F(Vec)|F(Vex)               , X(B64)|X(K)|X(Z)              , 295, 3 , CONTROL_FLOW(Regular), SAME_REG_HINT(RO)}, // #213 [ref=2x]
   { F(Evex)|F(EvexCompat)|F(Vec)|F(Vex)               , X(B32)|X(K)|X(Z)              , 295, 3 , CONTROL_FLOW(Regular), SAME_REG_HINT(RO)}, // #214 [ref=6x]
   { F(Vec)|F(Vex)                                     , 0                             , 567, 1 , CONTROL_FLOW(Regular), SAME_REG_HINT(None)}, // #215 [ref=2x]
   { F(Evex)|F(Vec)                                    , X(B64)|X(K)|X(Z)              , 295, 3 , CONTROL_FLOW(Regular), SAME_REG_HINT(None)}, // #216 [ref=17x]
   { F(Evex)|F(Vec)                                    , X(B32)|X(K)|X(Z)              , 295, 3 , CONTROL_FLOW(Regular), SAME_REG_HINT(None)}, // #217 [ref=12x]
-  { F(Vec)|F(Vex)                                     , 0                             , 298, 2 , CONTROL_FLOW(Regular), SAME_REG_HINT(None)}, // #218 [ref=6x]
+  { F(Vec)|F(Vex)                                     , 0                             , 298, 2 , CONTROL_FLOW(Regular), SAME_REG_HINT(None)}, // #218 [ref=5x]
   { F(Vec)|F(Vex)                                     , 0                             , 451, 2 , CONTROL_FLOW(Regular), SAME_REG_HINT(None)}, // #219 [ref=3x]
   { F(EvexTransformable)|F(Vec)|F(Vex)                , 0                             , 568, 1 , CONTROL_FLOW(Regular), SAME_REG_HINT(None)}, // #220 [ref=2x]
   { F(Evex)|F(Vec)                                    , X(K)|X(Z)                     , 569, 1 , CONTROL_FLOW(Regular), SAME_REG_HINT(None)}, // #221 [ref=1x]
@@ -2414,7 +2417,7 @@ const InstDB::CommonInfo InstDB::_inst_common_info_table[] = {
   { F(Evex)|F(Vec)                                    , X(B16)|X(K)|X(SAE)|X(Z)       , 322, 3 , CONTROL_FLOW(Regular), SAME_REG_HINT(None)}, // #311 [ref=3x]
   { F(Evex)|F(Vec)                                    , X(B32)|X(K)|X(SAE)|X(Z)       , 322, 3 , CONTROL_FLOW(Regular), SAME_REG_HINT(None)}, // #312 [ref=2x]
   { F(Evex)|F(Vec)                                    , X(K)|X(SAE)|X(Z)              , 584, 1 , CONTROL_FLOW(Regular), SAME_REG_HINT(None)}, // #313 [ref=3x]
-  { F(Evex)|F(EvexCompat)|F(Vec)|F(Vex)               , X(K)|X(Z)                     , 298, 3 , CONTROL_FLOW(Regular), SAME_REG_HINT(None)}, // #314 [ref=3x]
+  { F(Evex)|F(EvexCompat)|F(Vec)|F(Vex)               , X(K)|X(Z)                     , 298, 3 , CONTROL_FLOW(Regular), SAME_REG_HINT(None)}, // #314 [ref=4x]
   { F(Evex)|F(EvexCompat)|F(Vec)|F(Vex)               , X(K)|X(Z)                     , 295, 3 , CONTROL_FLOW(Regular), SAME_REG_HINT(None)}, // #315 [ref=22x]
   { F(EvexTransformable)|F(Vec)|F(Vex)                , 0                             , 465, 1 , CONTROL_FLOW(Regular), SAME_REG_HINT(None)}, // #316 [ref=2x]
   { F(Evex)|F(Vec)                                    , X(K)|X(Z)                     , 465, 2 , CONTROL_FLOW(Regular), SAME_REG_HINT(None)}, // #317 [ref=4x]
@@ -2735,34 +2738,35 @@ const InstDB::AdditionalInfo InstDB::additional_info_table[] = {
   { 1, 0, { EXT(AVX) } }, // #168 [ref=2x]
   { 1, 0, { EXT(AVX512_F), EXT(AVX512_VL) } }, // #169 [ref=4x]
   { 1, 0, { EXT(AVX512_BW), EXT(AVX512_VL) } }, // #170 [ref=2x]
-  { 0, 0, { EXT(AVX), EXT(AVX2) } }, // #171 [ref=17x]
+  { 0, 0, { EXT(AVX), EXT(AVX10_2), EXT(AVX2) } }, // #171 [ref=1x]
   { 0, 0, { EXT(AVX512_VL), EXT(AVX512_VP2INTERSECT) } }, // #172 [ref=2x]
   { 0, 0, { EXT(AVX), EXT(AVX2), EXT(AVX512_BW), EXT(AVX512_VL) } }, // #173 [ref=54x]
-  { 0, 0, { EXT(AVX2), EXT(AVX512_BW), EXT(AVX512_VL) } }, // #174 [ref=2x]
-  { 0, 0, { EXT(AVX512_CD), EXT(AVX512_VL) } }, // #175 [ref=6x]
-  { 0, 0, { EXT(PCLMULQDQ), EXT(VPCLMULQDQ), EXT(AVX), EXT(AVX512_F), EXT(AVX512_VL) } }, // #176 [ref=1x]
-  { 0, 1, { EXT(AVX) } }, // #177 [ref=7x]
-  { 0, 0, { EXT(AVX512_VBMI2), EXT(AVX512_VL) } }, // #178 [ref=16x]
-  { 0, 0, { EXT(AVX_VNNI_INT8) } }, // #179 [ref=6x]
-  { 0, 0, { EXT(AVX_VNNI), EXT(AVX512_VL), EXT(AVX512_VNNI) } }, // #180 [ref=4x]
-  { 0, 0, { EXT(AVX_VNNI_INT16) } }, // #181 [ref=6x]
-  { 0, 0, { EXT(AVX512_VBMI), EXT(AVX512_VL) } }, // #182 [ref=4x]
-  { 0, 0, { EXT(AVX), EXT(AVX512_BW), EXT(AVX512_VL) } }, // #183 [ref=4x]
-  { 0, 0, { EXT(AVX_IFMA), EXT(AVX512_IFMA), EXT(AVX512_VL) } }, // #184 [ref=2x]
-  { 0, 0, { EXT(AVX512_BITALG), EXT(AVX512_VL) } }, // #185 [ref=3x]
-  { 0, 0, { EXT(AVX512_VL), EXT(AVX512_VPOPCNTDQ) } }, // #186 [ref=2x]
-  { 0, 0, { EXT(SHA512), EXT(AVX) } }, // #187 [ref=3x]
-  { 0, 0, { EXT(SM3), EXT(AVX) } }, // #188 [ref=3x]
-  { 0, 0, { EXT(SM4), EXT(AVX) } }, // #189 [ref=2x]
-  { 0, 0, { EXT(WBNOINVD) } }, // #190 [ref=1x]
-  { 0, 0, { EXT(MSR) } }, // #191 [ref=1x]
-  { 0, 0, { EXT(RTM) } }, // #192 [ref=3x]
-  { 0, 0, { EXT(XSAVE) } }, // #193 [ref=6x]
-  { 0, 0, { EXT(TSXLDTRK) } }, // #194 [ref=2x]
-  { 0, 0, { EXT(XSAVES) } }, // #195 [ref=4x]
-  { 0, 0, { EXT(XSAVEC) } }, // #196 [ref=2x]
-  { 0, 0, { EXT(XSAVEOPT) } }, // #197 [ref=2x]
-  { 0, 1, { EXT(RTM) } }  // #198 [ref=1x]
+  { 0, 0, { EXT(AVX), EXT(AVX2) } }, // #174 [ref=16x]
+  { 0, 0, { EXT(AVX2), EXT(AVX512_BW), EXT(AVX512_VL) } }, // #175 [ref=2x]
+  { 0, 0, { EXT(AVX512_CD), EXT(AVX512_VL) } }, // #176 [ref=6x]
+  { 0, 0, { EXT(PCLMULQDQ), EXT(VPCLMULQDQ), EXT(AVX), EXT(AVX512_F), EXT(AVX512_VL) } }, // #177 [ref=1x]
+  { 0, 1, { EXT(AVX) } }, // #178 [ref=7x]
+  { 0, 0, { EXT(AVX512_VBMI2), EXT(AVX512_VL) } }, // #179 [ref=16x]
+  { 0, 0, { EXT(AVX10_2), EXT(AVX_VNNI_INT8) } }, // #180 [ref=6x]
+  { 0, 0, { EXT(AVX_VNNI), EXT(AVX512_VL), EXT(AVX512_VNNI) } }, // #181 [ref=4x]
+  { 0, 0, { EXT(AVX10_2), EXT(AVX_VNNI_INT16) } }, // #182 [ref=6x]
+  { 0, 0, { EXT(AVX512_VBMI), EXT(AVX512_VL) } }, // #183 [ref=4x]
+  { 0, 0, { EXT(AVX), EXT(AVX512_BW), EXT(AVX512_VL) } }, // #184 [ref=4x]
+  { 0, 0, { EXT(AVX_IFMA), EXT(AVX512_IFMA), EXT(AVX512_VL) } }, // #185 [ref=2x]
+  { 0, 0, { EXT(AVX512_BITALG), EXT(AVX512_VL) } }, // #186 [ref=3x]
+  { 0, 0, { EXT(AVX512_VL), EXT(AVX512_VPOPCNTDQ) } }, // #187 [ref=2x]
+  { 0, 0, { EXT(SHA512), EXT(AVX) } }, // #188 [ref=3x]
+  { 0, 0, { EXT(SM3), EXT(AVX) } }, // #189 [ref=3x]
+  { 0, 0, { EXT(SM4), EXT(AVX), EXT(AVX10_2) } }, // #190 [ref=2x]
+  { 0, 0, { EXT(WBNOINVD) } }, // #191 [ref=1x]
+  { 0, 0, { EXT(MSR) } }, // #192 [ref=1x]
+  { 0, 0, { EXT(RTM) } }, // #193 [ref=3x]
+  { 0, 0, { EXT(XSAVE) } }, // #194 [ref=6x]
+  { 0, 0, { EXT(TSXLDTRK) } }, // #195 [ref=2x]
+  { 0, 0, { EXT(XSAVES) } }, // #196 [ref=4x]
+  { 0, 0, { EXT(XSAVEC) } }, // #197 [ref=2x]
+  { 0, 0, { EXT(XSAVEOPT) } }, // #198 [ref=2x]
+  { 0, 1, { EXT(RTM) } }  // #199 [ref=1x]
 };
 #undef EXT
 
